@@ -12,2428 +12,1251 @@ Definition show_fres (r : fres) : string :=
   end.
 Definition check (rs : list rune) : string := digest (show_fres (format_res rs)).
 Definition full (rs : list rune) : string := show_fres (format_res rs).
-Eval vm_compute in ("<<<M32>>>" ++ check (runes_of_ascii "packet Logon{
-f32a
-// " ++ [27880; 37322]%N ++ runes_of_ascii "
-// " ++ [128512]%N ++ runes_of_ascii " emoji
-@lengthOf(
-x ) `u8 x,` ,
-@calculatedFrom(
-    // `tick` ""quote"" 'q'
-    ""a\""b"" // trailing space 
-) @rightPad( '0'
-)repeat int8
-u128`doc` , match packetx //x
-as
-a1 { [
-    // " ++ [27880; 37322]%N ++ runes_of_ascii "
-    65535, """ ++ [128512]%N ++ runes_of_ascii """ ]
-: packetx	,00 : x
-,
-// c
-// @lengthOf(
-} ,
-    @calculatedFrom(""" ++ [28040; 24687]%N ++ runes_of_ascii """ )match
-leftPad as lengthOf /// triple
-{ 0
-: packetx, [
-    ""{,}"" // `tick` ""quote"" 'q'
-,  0,
-""CRC32"" , 4294967296
-]
-    :
-    // @lengthOf(
-    int
-, """ ++ [28040; 24687]%N ++ runes_of_ascii """:A, [ 7
-, 0  ,
-""abc"" ,""CRC32"" ,""x y""// c
-,
-    //	t
-    255
-// a // b
-// " ++ [27880; 37322]%N ++ runes_of_ascii "
-, 007
-, 1 // @lengthOf(
-]	: _x } ,matchKey@lengthOf(tag ) , string BodyLength
-    @calculatedFrom( ""packet""	)
-/// triple
-// a // b
-, As @lengthOf(i8i8 ) `a\`
-,int16 A@lengthOf( tag ) `// not a comment`
-// " ++ [128512]%N ++ runes_of_ascii " emoji
-//
-,
-}
-MetaData metadata
-//	t
-// " ++ [128512]%N ++ runes_of_ascii " emoji
-{
-u32
-// c
-// a // b
-a1 ,  u16 BodyLength `tab	here` // " ++ [128512]%N ++ runes_of_ascii " emoji
-, int8
-lengthOf// " ++ [27880; 37322]%N ++ runes_of_ascii "
-,
-    // " ++ [128512]%N ++ runes_of_ascii " emoji
-    trueish x_y_z ,charz leftPad //
-,} MetaData leftPad {	} packet rootA
-{ match
-    x
-as
-    int
-    {0123456789// `tick` ""quote"" 'q'
-: u8x
-    ,
-    0123456789
-    :  tag
-    ,	} , @lengthOf(A )
+Eval vm_compute in ("<<<M1557>>>" ++ check (runes_of_ascii "  packet
+
+    body{  Z9_ { string
+
+leftPad 
+`crlf
+line`,  msg_type {// c
+  uint64 
+tag
+`{ , }` ,
 repeat
-f32 body `a\` ,// trailing space 
-i64	rootA
-    // packet A { u8 x, }
-    , @tag(007 ) match // @lengthOf(
-Logon as metadata
+	f64
+    BodyLength ,
+
+    },  i8i8
+
+BodyLength 
+,
+} 
+	// " ++ [128512]%N ++ runes_of_ascii " emoji
+  ,
+falsey  //
+,@leftPad
+    ( 	 // c
+
+  '0'
+
+    ) 
+@lengthOf( falsey	)f32
+	Z9_	@lengthOf(
+
+o
+
+    ) ,
+@calculatedFrom( """ ++ [233]%N ++ runes_of_ascii "t" ++ [233]%N ++ runes_of_ascii """)
+repeat	string //x
+As
+,@lengthOf(
+	falsey )
+
+@calculatedFrom(
+""a	b"")
+@tag(3 )repeat	Header
     {
-[""a	b"", // `tick` ""quote"" 'q'
-65535
-, ""abc"", 3 ,
-10 , ""\" ++ [233]%N ++ runes_of_ascii """
-]
-    // packet A { u8 x, }
-    :u128, 7
-: // packet A { u8 x, }
-zchar, 7 : stringy
-    , 007
-    :  string_ , """" : //x
-a1 , }
-,// c
-i8
-lengthOf// trailing space 
-, float64 pack @calculatedFrom(""" ++ [128512]%N ++ runes_of_ascii """
-) ,  repeatCount @calculatedFrom(
-""// no comment"") , float // c
-string_ , @leftPad // c
-(
-    '0' ) @calculatedFrom( ""a	b"" )@calculatedFrom( ""\" ++ [233]%N ++ runes_of_ascii """ ) // `tick` ""quote"" 'q'
-match
-    Logon as
-    // @lengthOf(
-    msg_type {	255 : roots, 255: x_y_z
-// c
-// packet A { u8 x, }
-,	""it's""  :
-len,[00 ,
-    // packet A { u8 x, }
-    42
-    , ""\n"" ,007
-    , ""1""
-,//
-""a\\"" , ""a\\""] :
-f32a [
-    42,	""a	b""
-/// triple
-//
-]  :
-    Header, [ """" , ""\" ++ [233]%N ++ runes_of_ascii """// `tick` ""quote"" 'q'
-]
-    : //
-tag , } , // packet A { u8 x, }
-int , }
-    options // c
-{uint8x = // @lengthOf(
-""\n"" ;}
-")).
-Eval vm_compute in ("<<<M3962>>>" ++ check (runes_of_ascii "MetaData
-	x	{string_
-x
-`tab	here`
+
+Packet
+	@lengthOf(
+    crc 
+)	,
+    repeat
+
+int16	As  ,
+
+repeat  uint16// packet A { u8 x, }
+		f32a , }
 ,
-	}
-packet
-
-    u { @tag(  1
-)  match
-x
-as
-
-    Z9_
-
-{ 
-""a\""b""
-:
-asx	}	, 	 // " ++ [128512]%N ++ runes_of_ascii " emoji
-    leftPad@calculatedFrom(	""it's"")  `" ++ [28040; 24687; 31867; 22411]%N ++ runes_of_ascii "`  ,	//	t
-    	@tag(
-10)
-    Packet
-,u64 
-        //x
-    // a // b
-
-stringy
-
-@calculatedFrom(
-
-    ""1"" )
-`doc`  , char[
-3
-	]  // " ++ [128512]%N ++ runes_of_ascii " emoji
-x_y_z@lengthOf( lengthOf )
-`" ++ [28040; 24687; 31867; 22411]%N ++ runes_of_ascii "`
-
-    , 
-} root packet 
-Pad
-	{ int8
-    Header @calculatedFrom(
-	""1"" )  `u8 x,` , @calculatedFrom(	""" ++ [128512]%N ++ runes_of_ascii """ 	 // packet A { u8 x, }
-    	)
-
-int64 BodyLength 
-`u8 x,`,
-
-@leftPad (	' ' 
-// a // b
-	)  char[] float
-    , 
-@lengthOf(  //x
-    	repeatCount
-)
-char[]  repeatCount 
-,
-
-}
-
-    packet
-    falsey 
-    //
-// `tick` ""quote"" 'q'
-      { 
-@calculatedFrom(
-	""" ++ [28040; 24687]%N ++ runes_of_ascii """ )@rightPad(
-
-    ) @leftPad  // c
-  (
-
-    '\x00'	)
-    zchar[3]  i8i8 `tab	here`,
-    } 
-	    //x
-
-	// packet A { u8 x, }
-packet zchar {  Header 
-@calculatedFrom( ""a\\""
+	@lengthOf(
+    float
 	)
 
-    , 	 // a // b
-    	msg_type `` ,@calculatedFrom( """ ++ [28040; 24687]%N ++ runes_of_ascii """  )	Logon zchar
+@tag(
 
-    ,
-
-i32 u128@calculatedFrom( ""packet"" )
-	// packet A { u8 x, }
-  /// triple
-,
-        // `tick` ""quote"" 'q'
-  // c
-  u8	_x  `
-` ,	@leftPad (
-	'0'	) uint16
-asx
-`a\` ,  @calculatedFrom(
-	""\n"")
-@calculatedFrom( ""a	b""
-
-    )
-float64
-	leftPad@lengthOf(
-
-    // c
-
-  repeatCount 
-      /// triple
-    	//
-)`it's`
-	,	match 
-metadata  as
-
-options1	{[42,
-    1
-
-    ]  // `tick` ""quote"" 'q'
-  :
-
-BodyLength  ""`tick`""  :_x ,
-
-65535	:
-
-asx ,  65535
-	:
-	BodyLength 
-""a\\""
-
-    :
-	    //
-
-	string_ }
-	, match
-/// triple
-//
-    uint8x  as
-	chars
-{
-10
-:	/// triple
-	Logon	""// no comment""
-	: float ,	/// triple
-
-	[ 
-""packet""
-	,
-7 ] :	MetaDataX
-10 
-:
-
-asx 
-,	""" ++ [28040; 24687]%N ++ runes_of_ascii """
-
-    :  i64_
-    ,
-	}
-    , }
-
-")).
-Eval vm_compute in ("<<<M279>>>" ++ check (runes_of_ascii "//x
-root packet
-// `tick` ""quote"" 'q'
-// `tick` ""quote"" 'q'
-i8i8 { u128{ repeat lengthOf Foo //
-`u8 x,`
-,MetaDataX	falsey
-`two words` ,Pad{	u8 a1 @lengthOf( leftPad )
-, }
-    , int @calculatedFrom( // " ++ [128512]%N ++ runes_of_ascii " emoji
-""a\\""
-    ) `
-`
-    ,	}
-    , Header
-Logon , match rootA// c
-as
-    BodyLength
-    // " ++ [27880; 37322]%N ++ runes_of_ascii "
-    { """ ++ [28040; 24687]%N ++ runes_of_ascii """ :	Pad [ """ ++ [233]%N ++ runes_of_ascii "t" ++ [233]%N ++ runes_of_ascii """
-    ,
-1
-] : _x , }, options1 `crlf
-line` , repeat u	{ match	i8i8 as falsey
-{// `tick` ""quote"" 'q'
-[ 42 , 4294967296 ]: x_y_z ,42
-:
-    float ,
-// `tick` ""quote"" 'q'
-// c
 3
-    : packetx
-, } , }
-, charz ,
-    }
-    // a // b
-    root packet float
-// @lengthOf(
-// c
-{ repeat _x body `say ""hi""` , charz`// not a comment`,repeat lengthOf{
-repeatCount { repeat
-tag { zchar[ 42  ]
-// a // b
-// " ++ [27880; 37322]%N ++ runes_of_ascii "
-leftPad
-,repeat
-    zchar[0123456789  ]T `crlf
-line`,  char[]
-trueish , zchar[ 007 // " ++ [128512]%N ++ runes_of_ascii " emoji
-]	lengthOf @lengthOf(string_
-)`" ++ [233]%N ++ runes_of_ascii "` ,
-} ,repeat int32 As
-,int8 chars	, i32 calculatedFrom`it's`, } /// triple
-, zchar[ 00 ] chars ``
-, }	,char[255
-] charz @calculatedFrom(""1"" ) `doc` , // packet A { u8 x, }
-match body
-as rootA { ""CRC32"" :	A , [ 007
-    , ""{,}""
-    ,
-    0 // `tick` ""quote"" 'q'
-,""1""
-    ,0123456789 ,""// no comment""// " ++ [27880; 37322]%N ++ runes_of_ascii "
-, ""it's"", 1] :
-    BodyLength 65535 : x_y_z [""`tick`""]  : a1 }, repeat	asx{ char[ 0123456789 ]
-    i64_ `" ++ [28040; 24687; 31867; 22411]%N ++ runes_of_ascii "` ,
-    } , @lengthOf(  x_y_z )
-pack
-@calculatedFrom(""" ++ [233]%N ++ runes_of_ascii "t" ++ [233]%N ++ runes_of_ascii """) ,@tag( 3
-// trailing space 
-//
-) repeat uint64 o
-    ,// @lengthOf(
-}")).
-Eval vm_compute in ("<<<M1213>>>" ++ check (runes_of_ascii "packet
-u8x { int8 T,	string
-    msg_type
-@lengthOf(
-    o )
-    , uint64
-pack `tab	here` , chars len  , @lengthOf( u8x )  repeat Packet _x `crlf
-line` // `tick` ""quote"" 'q'
-,@tag(255 ) @tag( 4294967296 ) @rightPad( )	match// c
-metadata
-as pack { // a // b
-""a\""b"" : a1
-// `tick` ""quote"" 'q'
-// " ++ [27880; 37322]%N ++ runes_of_ascii "
-,
-    } ,
-    a1 {match  Foo as trueish { [""a\""b"", ""a\""b""
-] : x
-"""" :
-    tag ,// c
-""1"" :
-Foo ,
-[
-4294967296
-,""`tick`"",65535 , 65535 , 10 ]	:
-_x // " ++ [27880; 37322]%N ++ runes_of_ascii "
-}
-,} ,
-    match	options1 as T{ [
-    3 ] : Z9_//x
-,	[ ""abc""]// trailing space 
-:lengthOf, } ,// c
-leftPad
-`a\`// " ++ [27880; 37322]%N ++ runes_of_ascii "
-,	} packet Packet {
-repeat float64
-    u8x `doc` , match metadata as int{ [ //
-4294967296
-    , // `tick` ""quote"" 'q'
-0123456789 , 007,
-""" ++ [128512]%N ++ runes_of_ascii """ ,
-""1""] : x_y_z
-    ,
-    7
-    :
-int
-    ,  007 :len""" ++ [28040; 24687]%N ++ runes_of_ascii """: string_ ,
-} ,repeat	zchar[ 3 ]  pack `u8 x,`,@leftPad ('0'
-)	char[ 007 ] x_y_z , zchar[ 10 ]u @lengthOf(
-x
-), repeat metadata//
-`" ++ [28040; 24687; 31867; 22411]%N ++ runes_of_ascii "`  , options1
-    { body
-    @calculatedFrom(
-// c
-//	t
-""abc""  )
-    `
-` , string crc  , char[	007	] A , }	,
-@calculatedFrom( ""{,}"" ) @calculatedFrom(
-    ""CRC32"") char[] Foo
-`line1
-line2`, @calculatedFrom( ""`tick`"" ) @rightPad
-( '\x00' ) @tag(
-// `tick` ""quote"" 'q'
-// packet A { u8 x, }
-10
-) zchar[ 007  ] float, // a // b
-repeat
-    zchar[ 10
-]Z9_
-,
-    // " ++ [128512]%N ++ runes_of_ascii " emoji
-    }
 
-")).
-Eval vm_compute in ("<<<M913>>>" ++ check (runes_of_ascii "// packet A { u8 x, }
-root
-    packet
-    u128
-    {
-// packet A { u8 x, }
-// trailing space 
-len T
-`
-`	, match Foo as
-float { 0  : roots , [""`tick`"" ]
-    : //
-_x , } , @rightPad ( '0' ) @calculatedFrom( ""packet""  ) //
-char[] x_y_z
-    `crlf
-line` , i64 msg_type , @rightPad ( ' ' ) @lengthOf( // c
-roots)
-Pad @calculatedFrom( """ ++ [233]%N ++ runes_of_ascii "t" ++ [233]%N ++ runes_of_ascii """)`" ++ [233]%N ++ runes_of_ascii "`	, }
-    packet Logon { repeat len Z9_ , u8x@calculatedFrom( ""a\""b"" ) ,
-    repeat int8 rootA `
-` //
-,string
-//	t
-//	t
-Foo , // c
-@lengthOf( float ) repeat// " ++ [128512]%N ++ runes_of_ascii " emoji
-char[]
-options1  , } root
-packet x
-    { @tag( //x
-1
-    )repeat string_ , f64	lengthOf , @tag( // " ++ [27880; 37322]%N ++ runes_of_ascii "
-4294967296 ) repeat u8x
-len  `" ++ [233]%N ++ runes_of_ascii "`
-,
-//	t
-// `tick` ""quote"" 'q'
-@rightPad
-('\x00'  )@calculatedFrom(
-""CRC32"")
-    @tag( 3 ) falsey
-{
-    uint8 trueish
-    `two words`
-, // `tick` ""quote"" 'q'
-} // @lengthOf(
-,@calculatedFrom( """ ++ [233]%N ++ runes_of_ascii "t" ++ [233]%N ++ runes_of_ascii """ ) // " ++ [27880; 37322]%N ++ runes_of_ascii "
-repeat
-    zchar[00
-] // packet A { u8 x, }
-crc	`two words`,	T // " ++ [128512]%N ++ runes_of_ascii " emoji
-, match i64_ as
-    // " ++ [27880; 37322]%N ++ runes_of_ascii "
-    msg_type	{""{,}"" :
-u8x ""\" ++ [233]%N ++ runes_of_ascii """
-: T , [	7
-] : matchKey,
-""`tick`"" : len , 42 : matchKey
-,
-} , // c
-}
-    options { x= zchar[
-10 ] ; pack  = false
-repeatCount =
-true ; charz
-    = '0' BodyLength = ""// no comment""; }
-
-")).
-Eval vm_compute in ("<<<M4269>>>" ++ check (runes_of_ascii "root packet options1 {
-    repeat u {
-        f64 roots,
-    },
-    zchar falsey `crlf
-    line`,
-    match u as Foo {
-        42 : lengthOf,
-        ""\n"" : crc,
-        [4294967296, 4294967296, 3, ""\" ++ [233]%N ++ runes_of_ascii """, ""x y""] : o,
-    },
-    a1 `crlf
-    line`,
-    @rightPad()
-    char[0123456789] x_y_z `line1
-    line2`,
-    @lengthOf(trueish)
-    i32 A `u8 x,`,
-}
-
-packet packetx {
-    // " ++ [128512]%N ++ runes_of_ascii " emoji
-    match u as u8x {
-        // " ++ [27880; 37322]%N ++ runes_of_ascii "
-        255 : lengthOf,
-        [
-            """ ++ [233]%N ++ runes_of_ascii "t" ++ [233]%N ++ runes_of_ascii """, 7, 00, ""a\\"", 10,
-            0, 007, 3
-        ] : string_,
-        0123456789 : f32a,
-    },// trailing space 
-    stringy @calculatedFrom(""\" ++ [233]%N ++ runes_of_ascii """) `line1
-    line2`,
-    @leftPad()
-    zchar[10] trueish,// packet A { u8 x, }
-}
-
-root packet Logon {
-    i64_ @lengthOf(int) `// not a comment`,
-    @tag(3)
-    match lengthOf as pack {
-        42 : T,
-        255 : int,
-        007 : tag,
-        4294967296 : _x,
-    },
-    @calculatedFrom(""packet"")
-    @tag(10)
-    @tag(65535)
-    zchar[65535] roots,
-    @rightPad(' ')
-    @tag(7)
-    // @lengthOf(
-    string Packet @lengthOf(u) `tab	here`,
-}
-
-packet metadata {
-}
-
-root packet x {
-}")).
-Eval vm_compute in ("<<<M1185>>>" ++ check (runes_of_ascii "packet T { x repeatCount
-`tab	here` ,
-    repeat	a1 `a\`
-, a1 @calculatedFrom( ""CRC32"" ),	repeat string msg_type`// not a comment`, // trailing space 
-} packet
-// @lengthOf(
-// trailing space 
-uint8x {zchar[65535 ] //x
-roots,	i64_ stringy
-,zchar[ 0123456789 ]
-tag `" ++ [28040; 24687; 31867; 22411]%N ++ runes_of_ascii "` , @tag( 42) match
-i8i8 as Header {	[ ""// no comment"" ,	""abc"" // c
-,
-    255 ,
-65535/// triple
-] : charz , 00 : /// triple
-Z9_,} ,
-uint8 int	@calculatedFrom(
-    ""`tick`"") ,@lengthOf( asx ) match crc as trueish {
-[ """" ,""// no comment""
-    ,
-42 ,
-    // @lengthOf(
-    ""packet""
-    ]	: chars , 0 :
-// packet A { u8 x, }
-//
-x
-""packet"" : crc ,
-} ,@calculatedFrom( ""{,}"" // a // b
-)repeatCount ,
-@tag( 7 ) BodyLength @calculatedFrom(
-""a	b""
-) ,	repeat u32 i64_ , }
-packet
-f32a
-{@tag(
-    //x
-    42
-    ) @tag( 10 ) string MetaDataX @calculatedFrom(""" ++ [28040; 24687]%N ++ runes_of_ascii """ // " ++ [27880; 37322]%N ++ runes_of_ascii "
 )
-    ,
-    //	t
-    crc {
-a1 // a // b
-@calculatedFrom( ""a\\"" ) `crlf
-line`
+    // a // b
+	@tag( 	 // " ++ [128512]%N ++ runes_of_ascii " emoji
+  10
+) roots
+
+    BodyLength  , 
+string
+tag	//	t
+	,
+	} MetaData  int
+
+{ 
+char[ 1	]
+    As
 ,
-    repeat zchar[10] A  , } , // " ++ [27880; 37322]%N ++ runes_of_ascii "
-match Packet	as Pad // a // b
-{ ""CRC32""
-: msg_type
-, } ,
-repeat string A `doc` ,}
-")).
-Eval vm_compute in ("<<<M3520>>>" ++ check (runes_of_ascii "options{StringPrefixLenType =u8	;	ArrayPrefixLenType
+Packet u128 ,  // c
+      pack
+	x_y_z
 
-=u8;
-    FixedStringPadFromLeft =
-true; FixedStringPadChar
-    =  ' '
+`{ , }`
+, string_ len ,
 
-    ;
-    }  packet Logout  {	repeat string Px , repeat  string seqNo ,InMsgkind64{ uint16 OrderId  , 
-char[]count
-    , repeat i32
-venue,	}
+    zchar[0]
+Header
+,	string zchar
 
-    ,	}packet
-    Heartbeat{
-	float32 tag7,
-
-    repeat InPrice50
-    { repeat char[
-	5 
-] lastPx,
-
-    InRef42
-{
-u8
-
-pad0 , } , uint32
-    Acct,	repeat
-	Logout	, 
-repeat char[
-
-    5	]
-Qty, } 
-,repeat
-	InSeqno30
-{
-    repeat
-	Logout
-
-    ,
-}
-    , @leftPad	('0'
-
-) char[
-
-    12	]Acct	,
-
+    `
+`	, }root packet
+	uint8x
+    {
     char[]
 
-    Side2 ,
-repeat string
-msgKind,
+u128  ,
+	}root
 
-} 
-packet Ack  {
+    packet crc
 
-    Heartbeat,
-char[	8 ]
-seqNo
-,
-	float64	clOrdID
-
-,  } 
-packet
-Trade{	char[]	OrderId
-
-,
-
-f64
-Side2
-,
-	zchar[8 ] f1 , string	Qty , float64
-seqNo
-,repeat Logout
-
-, }packet
-    Order 
-{
+{	repeat
+trueish{
 f32
-	OrderId,	repeat	u8  x
+lengthOf
+	`say ""hi""` 
+,
+i8 crc @calculatedFrom(
+
+    """ ++ [233]%N ++ runes_of_ascii "t" ++ [233]%N ++ runes_of_ascii """)
 
     ,
-    Ack
+match
 
-,  zchar[7]
-    Note
-	,
-} 
-root  packet 
-Logon
+Z9_
+	as
+repeatCount	{ 
+[
 
-    {  @rightPad
-(  '\x00'
-	)
-char[ 9  ]f1
-	,
-}
-")).
-Eval vm_compute in ("<<<M832>>>" ++ check (runes_of_ascii "MetaData  rootA
-    //	t
-    {
-} // " ++ [27880; 37322]%N ++ runes_of_ascii "
-packet	tag {repeat
-    lengthOf i8i8
-    `a\` // @lengthOf(
-,	@leftPad ('0') @rightPad
-    ( '\x00' )  match
-    chars as trueish
-    { ""it's""
-    : As
-, ""x y"": u //	t
-,
-//x
-/// triple
-42
-    // trailing space 
-    :chars
-,7: float ,
-255 : Foo ,
-    } , @calculatedFrom(""packet""
-/// triple
-// @lengthOf(
-) match u128 as tag {	00 :  packetx
-    ,255 : uint8x , [ ""{,}"" , """ ++ [128512]%N ++ runes_of_ascii """ ,// @lengthOf(
-65535
-, 10, // " ++ [27880; 37322]%N ++ runes_of_ascii "
-7,
-""packet"", // c
-255 ,
-    ""a\""b"" ] : o ,  0 : //
-x_y_z
-,
-    } // `tick` ""quote"" 'q'
-,
-@tag( // " ++ [128512]%N ++ runes_of_ascii " emoji
-0123456789 ) u { match pack as _x{
-[  007 ,0123456789
-] : charz , } ,
-    char[
-    42 ] u
-    // " ++ [128512]%N ++ runes_of_ascii " emoji
-    , } ,
-    int8 trueish ,@lengthOf( a1) x // trailing space 
-@calculatedFrom( ""\" ++ [233]%N ++ runes_of_ascii """ ) , @rightPad ( '0' )
-    Packet Z9_,  @leftPad ('\x00' ) falsey
-    { char[] msg_type	,
-} ,}
-root packet len {  options1 {
-    uint16 As @lengthOf( //x
-zchar ) `it's`
-    , },
-    }")).
-Eval vm_compute in ("<<<M4401>>>" ++ check (runes_of_ascii "packet
+3	]
+: string_
 
-    u
-    {uint64
+,""it's""
 
+:
+
+    A
+    0 :
     u8x
+    65535 :
 
-    ,
+u128}, // trailing space 
+	i32
+    x, } , char[] pack`// not a comment` ,
 
-@leftPad
+char[]
 
-('0' ) u16
-    uint8x
-	@lengthOf(
-T )
-
-    , @lengthOf(  
-      // `tick` ""quote"" 'q'
-	// `tick` ""quote"" 'q'
-  lengthOf
-
-    )@lengthOf(	msg_type  )
-    u16
-    tag	@calculatedFrom(  ""a\""b""
-
-) 
-	// a // b
-	`crlf
-line` 
-,
-
-}packet
-As
-	{
-@calculatedFrom(
-    ""a\\""
-) u128{	int16 
-string_  
-  // c
-      @lengthOf( Header  )
-	, repeat
-	i64_	`{ , }`
-
-    , } ,	/// triple
-  } 
-root
-packet
-roots
-
-{ 
-@calculatedFrom(	//	t
-	""`tick`""
-    )i32
-
-    Header 
-`" ++ [233]%N ++ runes_of_ascii "`
-,
-
-    int8
-
-T
-, @rightPad(
-
-' '	)
-
-u32 charz`doc`, 
-char[ 65535 ]  f32a  ,
-metadata
-
-    , }
-    MetaData	T
-{ u8x
-roots
-
-`it's`
-    , options1  MetaDataX
-
-    ,  int32  f32a, }
-options
-	{	// trailing space 
-
-	f32a= '0'  Pad 
-= 
-    //x
-	// trailing space 
-0123456789;	repeatCount 
-    // a // b
-
-  =
-
-char[]x_y_z
-	    //x
-// " ++ [27880; 37322]%N ++ runes_of_ascii "
-= '\x00'
-    }
-")).
-Eval vm_compute in ("<<<M882>>>" ++ check (runes_of_ascii "packet chars
-{
-    @leftPad	( '0'
-    ) char[]
-MetaDataX
-@lengthOf(
-Foo
-) , @lengthOf(
-    chars
-)repeat
-    BodyLength
-    // `tick` ""quote"" 'q'
-    ,	@lengthOf(MetaDataX  ) @lengthOf( A ) uint8x// trailing space 
-{ u16 Pad @lengthOf(
-// a // b
-/// triple
-charz ) `line1
-line2`, i64_
-{ match
-    i8i8/// triple
-as i8i8  {	7 :calculatedFrom 255 :
-x_y_z
-,
-    0123456789
-    : rootA""packet"" : string_ , 0123456789:  chars
-,	}
-//x
-// " ++ [27880; 37322]%N ++ runes_of_ascii "
-, } , } ,	zchar[3] Header	`two words` , i32 o , @tag(
-4294967296)	pack
-    ``
-    ,
-    repeatCount {
-i8 // " ++ [128512]%N ++ runes_of_ascii " emoji
-i64_ `
-`	, asx
-i64_ , crc { repeat zchar[
-    255 ] repeatCount // c
-,repeat uint8 Packet,
-char
 leftPad
-// packet A { u8 x, }
-// `tick` ""quote"" 'q'
-, uint32 lengthOf	@lengthOf( charz ) , } /// triple
+
+@calculatedFrom(
+
+    """" ) 
+`
+`
 ,
-},
-leftPad `` , repeat int16
-Pad
-    //x
+
+    string
+	o `doc`	,}
+
+packet 	 // " ++ [27880; 37322]%N ++ runes_of_ascii "
+  	rootA
+    {  // " ++ [128512]%N ++ runes_of_ascii " emoji
+repeat
+	x_y_z { zchar[ 
+    //	t
+  //	t
+
+	3 ]
+	stringy `crlf
+line`
+
     ,
-repeat u matchKey, }
-")).
-Eval vm_compute in ("<<<M3525>>>" ++ check (runes_of_ascii "options {
-    LittleEndian = true;
-    StringPrefixLenType = u64;
-    ArrayPrefixLenType = u8;
-    FixedStringPadChar = '0';
-}
-packet Reject {
-    i32 Ref,
-    repeat f64 OrderId,
-    repeat InNote12 {
-        u8 pad0,
-    },
-    @leftPad(' ') char[6] count,
-}
-packet Logout {
-    zchar[6] Tail,
-    repeat string venue,
-}
-packet Cancel {
-    u64 count,
-    repeat char[5] lastPx,
-    i64 Tail,
-    repeat InF140 {
-        repeat Logout,
-        repeat Reject,
-    },
-}
-root packet Trade {
-    repeat InMsgkind39 {
-        repeat Reject,
-        char[4] Px,
-    },
-    string Acct,
-    uint16 price,
-    f32 OrderId,
-    u16 x,
-    u16 clOrdID @lengthOf(Body),
-    match x as Body {
-        178 : Logout,
-        13 : Cancel,
-        174 : Reject,
-    },
-    u16 Flags @calculatedFrom(""CRC32""),
-}
-")).
-Eval vm_compute in ("<<<M3668>>>" ++ check (runes_of_ascii "
+    BodyLength 
+BodyLength ``  , 
+lengthOf @calculatedFrom(	""x y""
+	), // c
 
-  packet As	{
+	float64  
+      // " ++ [27880; 37322]%N ++ runes_of_ascii "
+      Logon@calculatedFrom(
+""a\\""  ) 
+, }, @lengthOf( Pad
+)// `tick` ""quote"" 'q'
+    @calculatedFrom( ""abc"")
 
-    @lengthOf(
-	chars
-    )
+@tag(  4294967296
+)
+uint8x
+	@lengthOf(  // packet A { u8 x, }
 
-@leftPad
+crc )
+	, @calculatedFrom(	//	t
+	""" ++ [233]%N ++ runes_of_ascii "t" ++ [233]%N ++ runes_of_ascii """ ) string
+u	@lengthOf(
+    uint8x )
 
-    ( 
-' ' )
-string
-	leftPad
+`// not a comment` , 
+u
+	metadata
+`u8 x,`, 
+} ")).
+Eval vm_compute in ("<<<M1622>>>" ++ check (runes_of_ascii "
 
-@lengthOf( _x) ,
+  options
 
-    @tag( 	 // " ++ [128512]%N ++ runes_of_ascii " emoji
-00 
+{
+u	=	""a\""b""
+//	t
+		//
+	;Z9_ 
+= ""// no comment"" ;	tag
+    // " ++ [27880; 37322]%N ++ runes_of_ascii "
+=7}
 
-    /// triple
-) match // " ++ [128512]%N ++ runes_of_ascii " emoji
-A
-as falsey
-	{  // `tick` ""quote"" 'q'
-0
+    root 
+packet 
+    // trailing space 
 
-    : i64_ ,
+	As {
+	}
+packet 
+Header
 
-[""x y"" 
-,
-    ""a\""b""
-, ""it's"" , 
-""x y"" 
-,
+    { @lengthOf( 
+Foo)
+
+rootA @calculatedFrom(""\" ++ [233]%N ++ runes_of_ascii """
+
+    ) , @calculatedFrom(""CRC32""	// a // b
+) 
+float64
+	crc,
+    repeat
+char[	// packet A { u8 x, }
+      007	]
+
+    Logon
+	, 	 //
+@tag(
+7 ) 
+
+    //
+
+  // c
+
+@calculatedFrom(	""{,}"" )	@lengthOf(stringy
+	)match//	t
+    A
+as 
+    // " ++ [128512]%N ++ runes_of_ascii " emoji
+
+// `tick` ""quote"" 'q'
+  f32a 
+{ 
+    // `tick` ""quote"" 'q'
+
+  [
+	""a\\"" ,  1 , ""CRC32"",
 
     007
-
-,
-
-    ""a	b""
-
-    ] // `tick` ""quote"" 'q'
-
-  :
-roots 
-65535
-://x
-  stringy	, },
-    zchar[4294967296 
-] 
-string_ `it's`,int16
-Logon `it's`	, 
-@calculatedFrom(
-
-    """ ++ [233]%N ++ runes_of_ascii "t" ++ [233]%N ++ runes_of_ascii """
-
-)  repeat char[]// " ++ [27880; 37322]%N ++ runes_of_ascii "
-  stringy `a\`  ,	repeat char[3  ]crc , @lengthOf(
-msg_type)x{
-u8x
-    int	`two words`  , i8i8
-_x  // packet A { u8 x, }
-
-  `
-`  ,
-	int8  Logon 
-@lengthOf(  Pad  ),
-
-}	, 
-@tag( 1 )
-
-i64
-	string_
-    @calculatedFrom(""\" ++ [233]%N ++ runes_of_ascii """ )
-    , 	 // packet A { u8 x, }
-	char[]
-Foo, 
+,	""a	b""	,	""\" ++ [233]%N ++ runes_of_ascii """]  :trueish,
+    4294967296
+	:  
+  // c
+	//x
+    u8x ,  //
 }
-
-")).
-Eval vm_compute in ("<<<M4317>>>" ++ check (runes_of_ascii "packet Header {
-    @lengthOf(BodyLength)
-    string body @lengthOf(zchar) `two words`,
-    @lengthOf(rootA)
-    i32 metadata `it's`,
-    @tag(00)
-    // trailing space 
-    msg_type @lengthOf(As),
-    int {
-        repeat string u128 `" ++ [233]%N ++ runes_of_ascii "`,
-        match MetaDataX as packetx {
-            [1, 0] : MetaDataX,
-            ""{,}"" : calculatedFrom,
-        },
-        // trailing space 
-        match asx as Logon {
-            7 : uint8x,
-            00 : x_y_z,
-            ""\" ++ [233]%N ++ runes_of_ascii """ : o,
-            """ ++ [233]%N ++ runes_of_ascii "t" ++ [233]%N ++ runes_of_ascii """ : chars,
-        },
-        body i64_ `crlf
-        line`,
-    },
-    a1 `line1
-    line2`,
-    // `tick` ""quote"" 'q'
-    // a // b
-    chars `// not a comment`,
-    @tag(7)
-    leftPad charz,
-    int64 a1 @calculatedFrom(""\n""),
-}")).
-Eval vm_compute in ("<<<M3827>>>" ++ check (runes_of_ascii "packet BodyLength {
-    zchar[10] x @calculatedFrom(""""),
-    @lengthOf(string_)
-    metadata,
-    @lengthOf(trueish)
-    repeat chars {
-        zchar[00] T @calculatedFrom(""a	b"") `crlf
-                line`,
-        char[0] chars,
-    },
-    uint8 rootA @lengthOf(int),
-    @lengthOf(packetx)
-    char[007] uint8x @calculatedFrom(""\" ++ [233]%N ++ runes_of_ascii """),
-    u {
-        char[] Pad @calculatedFrom(""\n""),
-    },
-    char[10] pack @lengthOf(_x) `two words`,
-    char[] Logon @lengthOf(body),
-    @lengthOf(matchKey)
-    chars {
-        uint16 pack,
-        char[4294967296] options1 @calculatedFrom(""CRC32""),
-        u32 i64_ `say ""hi""`,
-        lengthOf `// not a comment`,
-    },
-    options1 @lengthOf(x),
-}")).
-Eval vm_compute in ("<<<M983>>>" ++ check (runes_of_ascii "packet
-    // c
-    i64_{ @calculatedFrom( ""it's""
-    )// @lengthOf(
-leftPad@lengthOf( repeatCount
-    // " ++ [128512]%N ++ runes_of_ascii " emoji
-    ) ,// `tick` ""quote"" 'q'
-@tag( 00)int32 leftPad ,
-    f64 float
-,
-@calculatedFrom(
-""" ++ [233]%N ++ runes_of_ascii "t" ++ [233]%N ++ runes_of_ascii """ )
-@calculatedFrom( ""{,}"")
-match
-falsey
-as u {
-3 : // trailing space 
-chars	3//	t
-:  repeatCount ,} , @calculatedFrom( """ ++ [128512]%N ++ runes_of_ascii """ ) char[ 10 ] x,
-    char falsey @calculatedFrom( ""a\\"" )
-,
-// " ++ [27880; 37322]%N ++ runes_of_ascii "
-// trailing space 
+	,
 @tag(
-    0123456789	) @rightPad( '\x00'
-)
-    zchar[ // " ++ [27880; 37322]%N ++ runes_of_ascii "
-1 ] pack `say ""hi""`	, } packet
-i64_{ zchar[  007 ] falsey `tab	here`  , } root packet
-// a // b
-// c
-body {} packet roots{
-}packet
-x {
-    string asx @lengthOf(string_
-)
-    //x
-    ,	}
-")).
-Eval vm_compute in ("<<<M1019>>>" ++ check (runes_of_ascii "packet
-Foo { @calculatedFrom( ""it's"")/// triple
-@calculatedFrom( ""// no comment"" )	pack @calculatedFrom(
-    ""// no comment"" ) `tab	here`
-, }
-root packet options1 { @tag( 42 ) // a // b
-repeat char[ 42 // a // b
-]
-Packet `// not a comment`,	Logon { len ,  crc { zchar[ 65535
-    ] msg_type
-    @calculatedFrom( ""`tick`""
-) ,}
-    ,}, } packet matchKey
-{ @lengthOf(int
-    )
-@calculatedFrom(
-    ""// no comment""
-)  @tag(7
-// `tick` ""quote"" 'q'
-// @lengthOf(
-) x_y_z ,
-    i16 x_y_z `say ""hi""`
-    , @calculatedFrom(	""" ++ [233]%N ++ runes_of_ascii "t" ++ [233]%N ++ runes_of_ascii """
-    )
-    @calculatedFrom( //x
-"""")
-// a // b
-//x
-@tag(
-4294967296 )
-    // @lengthOf(
-    BodyLength string_,	}")).
-Eval vm_compute in ("<<<M1127>>>" ++ check (runes_of_ascii "packet calculatedFrom {// trailing space 
-@lengthOf( // `tick` ""quote"" 'q'
-crc
-) string a1
-`say ""hi""` // trailing space 
-, repeat int64
-    float `" ++ [28040; 24687; 31867; 22411]%N ++ runes_of_ascii "`
-,
-// trailing space 
-// " ++ [128512]%N ++ runes_of_ascii " emoji
-@calculatedFrom( ""`tick`""
-    ) BodyLength
-    @calculatedFrom(
-    ""packet"" )
-, char[ 65535
-    ] pack
-    // packet A { u8 x, }
-    ,	}
-packet
-    //x
-    Logon// a // b
-{u falsey , repeat i8i8  , calculatedFrom @calculatedFrom(
-    """ ++ [28040; 24687]%N ++ runes_of_ascii """
-) ,
-    // c
-    repeat
-    // " ++ [27880; 37322]%N ++ runes_of_ascii "
-    A As ,  } MetaData uint8x {
-matchKey
+
+255
+
+    )@lengthOf( u8x
+	)
+    @calculatedFrom(	""x y""
+	)
+	pack
+{ uint16 uint8x, },match
+
+    leftPad	as asx {  ""{,}""
+    :
 T
-`" ++ [233]%N ++ runes_of_ascii "` ,o T // " ++ [128512]%N ++ runes_of_ascii " emoji
-, char[
-00] int
-`crlf
-line` , char[3
-] pack // " ++ [128512]%N ++ runes_of_ascii " emoji
-,
-len a1 `say ""hi""`// c
-,}")).
-Eval vm_compute in ("<<<M124>>>" ++ check (runes_of_ascii "packet
-crc// @lengthOf(
-{ @rightPad ( '0' ) char[7
-    // c
-    ]
-matchKey  @calculatedFrom( ""{,}"") , } packet x_y_z  {  @calculatedFrom( ""a\""b"" )
-T
-{ Header
-{
-    // packet A { u8 x, }
-    lengthOf
-packetx
-`// not a comment` ,A
-    i8i8 `crlf
-line` , string o `line1
-line2` ,
-string_ @lengthOf( tag ) `line1
-line2` , },
-    } ,
-match
-lengthOf as	Z9_ {
-""\" ++ [233]%N ++ runes_of_ascii """
-: A , }
-, match rootA as
-matchKey// `tick` ""quote"" 'q'
-{	[""`tick`""// @lengthOf(
-,""x y""
-] :  Packet, }
-, //x
-repeat zchar[
-    1 ]// a // b
-_x
-// " ++ [128512]%N ++ runes_of_ascii " emoji
-/// triple
-, char[]
-    msg_type , A rootA , } //")).
-Eval vm_compute in ("<<<M1146>>>" ++ check (runes_of_ascii "options
-    {
-    // " ++ [27880; 37322]%N ++ runes_of_ascii "
-    tag = ' '
-leftPad // c
-=  255 x_y_z=
-uint32; // a // b
-falsey= """ ++ [28040; 24687]%N ++ runes_of_ascii """ As  =""packet"" ; }packet As
-{
-@lengthOf( u ) repeat
-u8 i8i8 `two words`,
-@tag( 00 // " ++ [27880; 37322]%N ++ runes_of_ascii "
-)@tag(	1 //x
-)
-    char[ 255 ] a1	@lengthOf( zchar )  , i32
-    //
-    u, repeat	float32 tag ,
-    //
-    A	,repeat uint8
-//x
-// `tick` ""quote"" 'q'
-string_, @calculatedFrom(
-""a\""b""	) @lengthOf(
-Header )u{int8	asx ``, i32 Foo
-@lengthOf( // " ++ [27880; 37322]%N ++ runes_of_ascii "
-tag )`
-` , }
-    , float64 pack
-    , @tag(10) Foo //	t
-, match repeatCount as u8x { 42: o, } , }
+	007 
+  //	t
+    :  // @lengthOf(
+	_x
+1  : options1  , 
+[
+    42 
+, 007	]  // a // b
+  	:  calculatedFrom	, """ ++ [233]%N ++ runes_of_ascii "t" ++ [233]%N ++ runes_of_ascii """
 
-")).
-Eval vm_compute in ("<<<M795>>>" ++ check (runes_of_ascii "
-packet rootA { string calculatedFrom@lengthOf(
-matchKey )
-, }packet rootA
-    {
-// " ++ [27880; 37322]%N ++ runes_of_ascii "
-//
-repeat string
-string_ ,
-} packet	x_y_z{ repeat	string i64_
-    //x
-    `two words` ,@leftPad (
-// " ++ [27880; 37322]%N ++ runes_of_ascii "
-// " ++ [128512]%N ++ runes_of_ascii " emoji
-) repeat int64 Foo ,
-match chars
-as int {""" ++ [28040; 24687]%N ++ runes_of_ascii """
-: o
-    /// triple
-    """ ++ [233]%N ++ runes_of_ascii "t" ++ [233]%N ++ runes_of_ascii """: crc,
-4294967296 : repeatCount
-// a // b
-// @lengthOf(
-, [1 ]  : As,
-[ 255,""" ++ [128512]%N ++ runes_of_ascii """
-    //
-    , ""x y""	,
-    ""{,}"", 4294967296,
-"""" ,
-    ""a\""b"" ,
-00 ] : u128 , // " ++ [128512]%N ++ runes_of_ascii " emoji
-""\" ++ [233]%N ++ runes_of_ascii """ : lengthOf ,
-    } , int64 uint8x
-    // c
-    , }
-")).
-Eval vm_compute in ("<<<M785>>>" ++ check (runes_of_ascii "packet asx {
-// c
-// " ++ [27880; 37322]%N ++ runes_of_ascii "
-u8 float , //	t
-}
-packet Logon { @tag(10 )@calculatedFrom(// @lengthOf(
-""packet"" ) i64
-    Logon @lengthOf(f32a ) ,zchar[ 1 ]stringy
-    @calculatedFrom(
-    ""// no comment"" )
-    `crlf
-line` ,
-    // @lengthOf(
-    match lengthOf as trueish { 255
-: string_// `tick` ""quote"" 'q'
-,
-// c
-// c
-4294967296: u
-    ,
-    } , @tag( 7 ) tag{ repeat crc, zchar
-    @calculatedFrom( ""\" ++ [233]%N ++ runes_of_ascii """
-)`{ , }` , } , char[] msg_type, repeat string Packet
-    `" ++ [28040; 24687; 31867; 22411]%N ++ runes_of_ascii "`  , }
-//x
-")).
-Eval vm_compute in ("<<<M4496>>>" ++ check (runes_of_ascii "options {
-    zchar = false;
-    Packet = ""`tick`"";
-    a1 = char[];
-    Packet = 0123456789;
-}
-
-packet msg_type {
-    /// triple
-    @lengthOf(u128)
-    body @lengthOf(len),
-    @calculatedFrom(""CRC32"")
-    zchar[007] repeatCount @lengthOf(Foo) `it's`,
-    i16 leftPad @calculatedFrom(""a\\"") `u8 x,`,
-    /// triple
-    float,
-    @lengthOf(a1)
-    As @lengthOf(rootA) `doc`,// " ++ [128512]%N ++ runes_of_ascii " emoji
-    f32 o @calculatedFrom(""a	b"") `tab	here`,
-}
-
-options {
-}
-
-options {
-}")).
-Eval vm_compute in ("<<<M726>>>" ++ check (runes_of_ascii "packet u
-{
-    @calculatedFrom( """"
-)float64 i8i8
-, @tag(42
-)@lengthOf( Z9_ ) @tag(  00	) Logon  metadata , float64 packetx
-// trailing space 
-// a // b
-,// c
-char[]trueish@calculatedFrom(""// no comment"" )	`" ++ [28040; 24687; 31867; 22411]%N ++ runes_of_ascii "`	,leftPad
-    , repeat  i32 x ,@calculatedFrom(	""" ++ [233]%N ++ runes_of_ascii "t" ++ [233]%N ++ runes_of_ascii """ )u16
-    As,
-repeat
-    char[] Header , match
-T
-as falsey {
-10
 :
-    string_ }
-// " ++ [27880; 37322]%N ++ runes_of_ascii "
+lengthOf
+
+}, 
+u8x {
+
+    int64  charz	`line1
+line2` 
+, } 
+, repeat 
+	    //x
+Header 
+BodyLength
+`
+`
+	, 
+@rightPad
+(  // `tick` ""quote"" 'q'
+'\x00'  )
+@lengthOf(tag  )  match
+
+    o	// trailing space 
+as
+
+uint8x{	[
+	255 ]: _x
+
+    ,	1
+: matchKey , 
+    // " ++ [128512]%N ++ runes_of_ascii " emoji
+		//x
+		65535
+	: 
+  // c
+    // @lengthOf(
+
+tag ,
+0123456789	:	zchar ,""a\\"" :
+	metadata ,
+
+} 
+, }")).
+Eval vm_compute in ("<<<M210>>>" ++ check (runes_of_ascii "packet chars
+    {
+int32 trueish ,match Pad
+as repeatCount { [0] :// " ++ [27880; 37322]%N ++ runes_of_ascii "
+Pad
+    , /// triple
+3
+: Foo , ""abc""
+    :
+i64_ //	t
+, [255
+    ,	3 ]
+    :
+Packet ,[
+0123456789 // @lengthOf(
+,""// no comment"" ]
+: Packet , }
+    , // c
+match  a1 as u {[// `tick` ""quote"" 'q'
+""abc""
+, """ ++ [233]%N ++ runes_of_ascii "t" ++ [233]%N ++ runes_of_ascii """
+, """" ,  0
+    ,
+    //	t
+    255 ]
+:u
+    //	t
+    ,
+    } ,@tag(  10
+    ) match a1
+    as a1
+{
+    [42
+    ]//
+:packetx ,
+    } ,@lengthOf(As ) repeat	char[0123456789] repeatCount`tab	here` ,string o `crlf
+line` ,
 //x
-, } packet A {zchar[ 42]
-rootA
-    ,f32	pack
-@lengthOf(
-    zchar)  , // @lengthOf(
-}
-")).
-Eval vm_compute in ("<<<M456>>>" ++ check (runes_of_ascii "MetaData  rootA {
-char[ 42 ] body `tab	here` , string pack, zchar[ 65535 ]A // trailing space 
-`it's` ,i64_
-    Pad , } MetaData
-leftPad { int16 u, } packet trueish
-{ @tag(00
-    ) char[ 42 ]
-    MetaDataX `crlf
-line` , @lengthOf(asx  ) chars
-charz
-    ,@rightPad
+// a // b
+As
+    @lengthOf(//x
+i8i8 )
+    , string repeatCount @lengthOf( u128 ) ,
+    //
+    @tag( 00 ) repeat pack Logon , }	root packet Foo {@tag( 1)char[ // packet A { u8 x, }
+3
+]
+i64_ ,
+f32
+// packet A { u8 x, }
+// " ++ [27880; 37322]%N ++ runes_of_ascii "
+charz , // `tick` ""quote"" 'q'
+i8 zchar
+    @lengthOf(// `tick` ""quote"" 'q'
+MetaDataX ) /// triple
+,@tag( 007 )u8 _x ,@tag(  255 ) msg_type@calculatedFrom(""`tick`"") `doc` ,  @calculatedFrom( """ ++ [233]%N ++ runes_of_ascii "t" ++ [233]%N ++ runes_of_ascii """ ) match len as /// triple
+As {""// no comment"" : falsey ,
+    }  , } MetaData leftPad{ x i8i8 , } //")).
+Eval vm_compute in ("<<<M301>>>" ++ check (runes_of_ascii "root  packet
+    MetaDataX { } options
+    {
+matchKey
+= ""abc""
+;i64_ =// a // b
+7 ; len  = 1 x_y_z =//x
+'0' ; } options { A
+    = 7 len
+// a // b
+//x
+=	zchar[4294967296 ]	;o
+    = string ;
+    int = false f32a = // trailing space 
+""CRC32"" ;} root
+    packet crc
+    // " ++ [27880; 37322]%N ++ runes_of_ascii "
+    { char[]
+string_
+    ,match i8i8 // c
+as tag { //x
+3 :packetx } ,  @rightPad(' '	)  repeat _x
+// packet A { u8 x, }
+//x
+{ a1
+trueish `// not a comment` , }	, int16// packet A { u8 x, }
+Z9_ ,@lengthOf( uint8x
+    // @lengthOf(
+    )
+// `tick` ""quote"" 'q'
+// `tick` ""quote"" 'q'
+zchar[
+    // " ++ [128512]%N ++ runes_of_ascii " emoji
+    4294967296  ]A
+@lengthOf( i64_  ) //	t
+`two words` ,repeat // " ++ [27880; 37322]%N ++ runes_of_ascii "
+uint64 metadata
+,
+@calculatedFrom(
+""packet"" ) string
+//x
+//	t
+x
+`it's`
+, match	T
+as asx
+// " ++ [27880; 37322]%N ++ runes_of_ascii "
+//	t
+{ ""abc"" : A , ""it's""
+:
+    Logon, }  ,// packet A { u8 x, }
+@calculatedFrom(
 //
-// c
-(
-'0')
-@lengthOf( a1 ) char[] Packet @calculatedFrom( ""x y"" )  `crlf
-line` , len i8i8 , @rightPad (
-    '\x00')options1 {	x
-@lengthOf( Z9_ ) , } ,}")).
-Eval vm_compute in ("<<<M3544>>>" ++ check (runes_of_ascii "options {
+// a // b
+""\n"" ) string _x , uint64 zchar @lengthOf(
+lengthOf
+) , } packet
+uint8x { } // a // b")).
+Eval vm_compute in ("<<<M1446>>>" ++ check (runes_of_ascii "options {
     LittleEndian = false;
-    StringPrefixLenType = u8;
-    ArrayPrefixLenType = u16;
-    FixedStringPadFromLeft = false;
+    StringPrefixLenType = u16;
+    ArrayPrefixLenType = u64;
+    FixedStringPadFromLeft = true;
+    FixedStringPadChar = ' ';
+}
+packet Logon {
+    u16 Tail,
+    repeat string x,
+    i16 count,
+    @leftPad('0') char[3] Note,
+}
+packet Fill {
 }
 packet Heartbeat {
-    u8 seqNo,
-    @rightPad('\x00') char[8] x,
 }
-root packet Trade {
-    repeat Heartbeat,
-    float32 OrderId,
-    i64 Acct,
-    u16 Qty,
-    u16 clOrdID,
-    match clOrdID as Body {
-        131 : Heartbeat,
+packet Reject {
+    string msgKind,
+    repeat Logon,
+    InFlags25 {
+        repeat InPrice29 {
+            u8 price,
+            Logon,
+            repeat char[1] Note,
+        },
+        char[] x,
+        Fill,
     },
-    u16 sym @calculatedFrom(""CRC32""),
-}
-")).
-Eval vm_compute in ("<<<M1067>>>" ++ check (runes_of_ascii "packet
-i64_	{
-x_y_z
-`it's`, o @lengthOf( i64_ )
-    // a // b
-    ,
-    char[007	]trueish
-// trailing space 
-/// triple
-@lengthOf( leftPad )
-    ,
-} MetaData tag {
-    char[ 65535
-]
-// c
-/// triple
-pack ,
-int64  Logon`two words` , // a // b
-}
-packet u8x
-{ float64
-    lengthOf , repeat char[]
-As,
-    u
-BodyLength ,tag { repeat BodyLength	{// a // b
-uint16 zchar `doc`,	}
-    ,
-    } , }
-")).
-Eval vm_compute in ("<<<M768>>>" ++ check (runes_of_ascii "
-packet Pad
-{@lengthOf(
-x ) match Header as // c
-A
-// " ++ [27880; 37322]%N ++ runes_of_ascii "
-// @lengthOf(
-{  """ ++ [128512]%N ++ runes_of_ascii """
-    : // c
-x_y_z [""" ++ [233]%N ++ runes_of_ascii "t" ++ [233]%N ++ runes_of_ascii """ ]: body }// `tick` ""quote"" 'q'
-, @calculatedFrom( ""a\""b""	)float32 uint8x ,	int16 roots, @calculatedFrom( ""abc"" ) i8 len
-    // `tick` ""quote"" 'q'
-    @lengthOf(
-x_y_z ), }
-    packet chars
-    { string Packet `doc`	, rootA {
-    repeat o , }
-, pack stringy	`" ++ [28040; 24687; 31867; 22411]%N ++ runes_of_ascii "` , }")).
-Eval vm_compute in ("<<<M3693>>>" ++ check (runes_of_ascii "//x
-packet int
-	{  repeat
-options1
-falsey
-    , 
-@lengthOf( // " ++ [128512]%N ++ runes_of_ascii " emoji
-roots
-
-    )
-
-    f32 
-Header @lengthOf( leftPad
-    ) 
-,  repeat
-
-    crc uint8x
-
-    ,
-
-falsey{
-	_x
-	body  `
-` , repeat	Packet	Foo
-,
-	uint64
-As
-
-@calculatedFrom(
-	""1"" )`
-`
-
-    , repeat
-	Header  ,
-    } ,
-char[ 7 ]  
-      /// triple
-
-Logon@calculatedFrom(
-""a\\""
-	) ,
-
-}
-")).
-Eval vm_compute in ("<<<M74>>>" ++ check (runes_of_ascii "// packet A { u8 x, }
-root packet
-charz {
-    matchKey { repeat
-    Foo { // trailing space 
-uint8 chars @lengthOf(	x
-    ) , } //
-, pack{rootA@lengthOf( MetaDataX// c
-) , } // a // b
-, roots{zchar[	10	]
-    leftPad ,
-    } ,	repeat pack
-stringy`two words` ,	}, } packet rootA {char[ 10 ]
-    x_y_z
-`{ , }` , uint64 falsey ,
-    // " ++ [27880; 37322]%N ++ runes_of_ascii "
-    }
-")).
-Eval vm_compute in ("<<<M1370>>>" ++ check (runes_of_ascii "options	{ rootA =""" ++ [28040; 24687]%N ++ runes_of_ascii """
-    ;a1 = // a // b
-'\x00' ;
-    asx=	' '} MetaData string_ { char[]
-    i64_ `it's` ,  }
-packet
-float {@calculatedFrom(	""// no comment"" ) repeat char[]  Z9_, @lengthOf(
-Foo
-    ) uint16
-u @calculatedFrom( ""\n"" )	, repeat uint32 a1 , // `tick` ""quote"" 'q'
-Logon
-// " ++ [128512]%N ++ runes_of_ascii " emoji
-// " ++ [128512]%N ++ runes_of_ascii " emoji
-`line1
-line2`, }
-//
-")).
-Eval vm_compute in ("<<<M4183>>>" ++ check (runes_of_ascii "MetaData u8x {
-    packetx len `crlf
-        line`,
-    char[255] calculatedFrom `" ++ [28040; 24687; 31867; 22411]%N ++ runes_of_ascii "`,
-    float64 MetaDataX `say ""hi""`,
-    BodyLength charz `crlf
-        line`,
-}
-
-packet lengthOf {
-    //	t
-    @tag(4294967296)
-    uint8x @calculatedFrom(""\n"") `" ++ [28040; 24687; 31867; 22411]%N ++ runes_of_ascii "`,
-    char calculatedFrom @calculatedFrom(""" ++ [28040; 24687]%N ++ runes_of_ascii """) `two words`,
-}")).
-Eval vm_compute in ("<<<M3808>>>" ++ check (runes_of_ascii "packet
-
-body 
-{ 
-i32  options1
-
-    ,} packet
-int{repeat 
-f32a
-{
-
-options1@calculatedFrom(  ""abc"" 	 // " ++ [27880; 37322]%N ++ runes_of_ascii "
-
-	)
-
-// a // b
-
-, zchar[  4294967296
-]
-calculatedFrom
-,	x_y_z
-@calculatedFrom(
-""packet""
-)
-`say ""hi""`
-    ,
-}
-,
-	}  packet
-x_y_z 
-{ repeat
-float64
-
-MetaDataX `crlf
-line` //	t
-,crc
-
-A	``,  }
-
-")).
-Eval vm_compute in ("<<<M1420>>>" ++ check (runes_of_ascii "root packet Foo Foo // " ++ [128512]%N ++ runes_of_ascii " emoji
-{ } options {
-    // a // b
-    tag // `tick` ""quote"" 'q'
-= //	t
-""""
-    ; u8x = zchar[0  ] }
-MetaData
-    int {zchar[ 10]
-lengthOf	`` , i64 u8x`// not a comment` ,MetaDataX pack// `tick` ""quote"" 'q'
-`crlf
-line`
-, Logon charz `crlf
-line`
-    ,
-    // a // b
-    }
-")).
-Eval vm_compute in ("<<<M1450>>>" ++ check (runes_of_ascii "root packet Foo // " ++ [128512]%N ++ runes_of_ascii " emoji
-{ } options {
-    // a // b
-    tag // `tick` ""quote"" 'q'
-= = //	t
-""""
-    ; u8x = zchar[0  ] }
-MetaData
-    int {zchar[ 10]
-lengthOf	`` , i64 u8x`// not a comment` ,MetaDataX pack// `tick` ""quote"" 'q'
-`crlf
-line`
-, Logon charz `crlf
-line`
-    ,
-    // a // b
-    }
-")).
-Eval vm_compute in ("<<<M1619>>>" ++ check (runes_of_ascii "root packet Foo // " ++ [128512]%N ++ runes_of_ascii " emoji
-{ } options {
-    // a //# b
-    tag // `tick` ""quote"" 'q'
-= //	t
-""""
-    ; u8x = zchar[0  ] }
-MetaData
-    int {zchar[ 10]
-lengthOf	`` , i64 u8x`// not a comment` ,MetaDataX pack// `tick` ""quote"" 'q'
-`crlf
-line`
-, Logon charz `crlf
-line`
-    ,
-    // a // b
-    }
-")).
-Eval vm_compute in ("<<<M1551>>>" ++ check (runes_of_ascii "root packet Foo // " ++ [128512]%N ++ runes_of_ascii " emoji
-{ } options {
-    // a // b
-    tag // `tick` ""quote"" 'q'
-= //	t
-""""
-    ; u8x = zchar[0  ] }
-MetaData
-    int {zchar[ 10]
-lengthOf	`` , i64 u8x, `// not a comment`MetaDataX pack// `tick` ""quote"" 'q'
-`crlf
-line`
-, Logon charz `crlf
-line`
-    ,
-    // a // b
-    }
-")).
-Eval vm_compute in ("<<<M1599>>>" ++ check (runes_of_ascii "root packet Foo // " ++ [128512]%N ++ runes_of_ascii " emoji
-{ } options {
-    // a // b
-    tag // `tick` ""quote"" 'q'
-= //	t
-""""
-    ; u8x = zchar[0  ] }
-MetaData
-    int {zchar[ 10]
-lengthOf	`` , i64 u8x`// not a comment` ,MetaDataX pack// `tick` ""quote"" 'q'
-`crlf
-line`
-, Logon charz `crlf
-line`
-    ,
-    // a // b
-    
-")).
-Eval vm_compute in ("<<<M4363>>>" ++ check (runes_of_ascii "MetaData 
-// a // b
-	  uint8x	/// triple
-	{
-}packet matchKey{ @rightPad
-    (
-    )
-	a1
-
-    { zchar[ 1 ]
-
-    u128 @calculatedFrom(
-    ""a\""b"" ),
-i64_
-i8i8,  
-      // c
-	repeat
-
-    int
-roots
-    ,
-    i8
-	charz 
-    //
-// packet A { u8 x, }
-  ,}
-
-    ,
-}
-
-options { 
-}
-
-")).
-Eval vm_compute in ("<<<M3517>>>" ++ check (runes_of_ascii "options {
-    LittleEndian = true;
-    ArrayPrefixLenType = u64;
-    FixedStringPadFromLeft = false;
-}
-packet Quote {
+    repeat Heartbeat,
 }
 root packet Order {
-    i64 Side2,
-    Quote,
-    u32 Px,
-    match Px as Body {
-        [119, 147] : Quote,
+    InNote88 {
+        repeat i32 Acct,
+        repeat i16 clOrdID,
+        repeat Logon,
     },
-    u16 Flags @calculatedFrom(""CR\
-C32""),
+    u16 tag7,
+    match tag7 as Body {
+        [14, 22] : Logon,
+        55 : Heartbeat,
+        93 : Reject,
+        13 : Fill,
+    },
 }
 ")).
-Eval vm_compute in ("<<<M601>>>" ++ check (runes_of_ascii "
-options { } root packet lengthOf { repeat//x
-int
-    , string trueish @lengthOf( MetaDataX ) `say ""hi""` , int64 x_y_z
-// trailing space 
-// packet A { u8 x, }
-, } packet // a // b
-calculatedFrom
-{@tag( 10
-// packet A { u8 x, }
-/// triple
-) zchar leftPad
-`it's` , }")).
-Eval vm_compute in ("<<<M243>>>" ++ check (runes_of_ascii "packet leftPad{
-    trueish { char[] charz	@calculatedFrom(  ""\n"" )
+Eval vm_compute in ("<<<M1488>>>" ++ check (runes_of_ascii "options {
+    StringPrefixLenType = u16;
+    ArrayPrefixLenType = u32;
+    FixedStringPadFromLeft = false;
+    FixedStringPadChar = '0';
+}
+
+packet Logout {
+    f64 f1,
+    i16 Note,
+    @rightPad('\x00')
+    char[11] Flags,
+}
+
+packet Cancel {
+    float64 msgKind,
+}
+
+packet Reject {
+    InQty43 {
+        float32 sym,
+        char[10] Tail,
+        uint8 venue,
+        uint16 f1,
+        char[9] Acct,
+    },
+}
+
+packet Trade {
+    char[] x,
+    zchar[6] Note,
+    repeat Reject,
+}
+
+root packet Order {
+    Cancel,
+    Logout,
+    u64 Acct,
+    u32 OrderId,
+    match OrderId as Body {
+        [127, 70] : Reject,
+        177 : Trade,
+        58 : Logout,
+        75 : Cancel,
+    },
+    u32 Tail @calculatedFrom(""CR\
+        C32""),
+}")).
+Eval vm_compute in ("<<<M31>>>" ++ check (runes_of_ascii "packet options1
+    {@leftPad
+( )
+    @calculatedFrom( ""\n"" )
+    @leftPad (
+' ' // " ++ [27880; 37322]%N ++ runes_of_ascii "
+)
+chars
+T `say ""hi""` // " ++ [27880; 37322]%N ++ runes_of_ascii "
+,
+    // @lengthOf(
+    repeat zchar
+{  metadata {
 // @lengthOf(
-//x
+// c
+match A as x_y_z {""1"" :
+// " ++ [128512]%N ++ runes_of_ascii " emoji
+// c
+string_// @lengthOf(
+[""// no comment""  ,
+10 ] : Foo""a\\"": Packet [""a	b"",
+    65535 ]
+    :	x
 ,
-    } , @rightPad
-    ( '0' ) @tag( 255 )len {
-    zchar[
-65535
-] f32a , }
-,f64
-    i8i8	`` , } options {chars = 00 Pad =
-    false // a // b
-stringy =
-string
-    }
-")).
-Eval vm_compute in ("<<<M3813>>>" ++ check (runes_of_ascii "  packet  x_y_z 	 //x
-  {
-@tag(
-
-0123456789 
-) match// " ++ [27880; 37322]%N ++ runes_of_ascii "
-  T	as
-
-    roots
-	{ 255	:  asx
-,
-[  1
-
-    //x
-,  3 
-,	""`tick`""]
-:
-    Header
-
-3 :
-    pack	// " ++ [128512]%N ++ runes_of_ascii " emoji
-	}
-,
-
-    u64 
-a1/// triple
-    `tab	here`	,
-	_x  options1
-
-    `{ , }`, }")).
-Eval vm_compute in ("<<<M669>>>" ++ check (runes_of_ascii "
-root packet roots { @tag( 42  )repeat // " ++ [128512]%N ++ runes_of_ascii " emoji
-string //	t
-options1,
 }
-MetaData crc{ pack metadata `line1
+,
+} , } // " ++ [128512]%N ++ runes_of_ascii " emoji
+,
+@rightPad (
+) f32
+msg_type
+    , match f32a as body { [
+    ""`tick`"" , ""\n"" ,
+    ""a	b"" ,
+""{,}"" , 255 ,""x y"", 3
+]:// @lengthOf(
+x ,
+    ""CRC32""
+: zchar	, ""x y"" :
+rootA // `tick` ""quote"" 'q'
+[ 00
+    ,
+    ""it's""	, 4294967296 ,""CRC32"" ]:
+roots 4294967296 : Logon}, @leftPad
+('0')pack `crlf
+line`
+, }")).
+Eval vm_compute in ("<<<M20>>>" ++ check (runes_of_ascii "// " ++ [128512]%N ++ runes_of_ascii " emoji
+MetaData o
+    { } packet uint8x { uint8
+    // c
+    u128  @lengthOf(
+body  )  `// not a comment` , @calculatedFrom( ""1"" ) options1{
+    repeat Foo crc , zchar[ 255] MetaDataX
+    /// triple
+    @calculatedFrom( ""\" ++ [233]%N ++ runes_of_ascii """ ) , Foo { char[ 1 ] msg_type ,
+    } ,
+    },
+float64
+    falsey @lengthOf(
+f32a )
+,
+    match
+// packet A { u8 x, }
+//
+BodyLength
+    as f32a
+{ """ ++ [128512]%N ++ runes_of_ascii """
+: x_y_z ,	""" ++ [128512]%N ++ runes_of_ascii """ :
+    BodyLength ,""" ++ [28040; 24687]%N ++ runes_of_ascii """ : Foo
+,
+    } , @lengthOf( lengthOf ) repeat len , // " ++ [128512]%N ++ runes_of_ascii " emoji
+crc float`line1
 line2`
-,	int64 asx
-// a // b
-//	t
-, // " ++ [27880; 37322]%N ++ runes_of_ascii "
-A float ,char[65535 ]Z9_ `tab	here`
-,
-u8 u128 `` // trailing space 
-,// a // b
+    , }MetaData repeatCount {
+tag x, //	t
 }
 ")).
-Eval vm_compute in ("<<<M3747>>>" ++ check (runes_of_ascii "root packet BodyLength {
-    //x
-    //	t
-    @rightPad(' ')
-    f32 _x @lengthOf(Header) `" ++ [28040; 24687; 31867; 22411]%N ++ runes_of_ascii "`,
-    @lengthOf(crc)
-    // a // b
-    @tag(007)
-    char[] a1,
+Eval vm_compute in ("<<<M216>>>" ++ check (runes_of_ascii "packet repeatCount
+{ f64 // @lengthOf(
+_x
+@lengthOf( zchar
+) ,
+Z9_ , calculatedFrom @lengthOf(rootA
+)
+    `{ , }` ,} packet a1{
+    /// triple
+    chars
+@lengthOf(
+tag ), metadata
+    , }packet
+Packet
+    { //x
+@tag( 65535 )  @leftPad ( )@tag( 42)	char[ 0123456789]
+    /// triple
+    float @calculatedFrom(""CRC32"" )
+    `tab	here` , repeat int8 string_, u8
+x_y_z
+`crlf
+line`, // @lengthOf(
+@tag( 0123456789
+)zchar[
+1
+]	lengthOf @calculatedFrom( ""it's"" ) , // " ++ [27880; 37322]%N ++ runes_of_ascii "
 }
-
-packet metadata {
-    Foo @calculatedFrom(""\n""),
-    char _x,
-}")).
-Eval vm_compute in ("<<<M2296>>>" ++ check (runes_of_ascii "MetaData Packet { }packet	asx  { @lengthOf( asx) falsey`crlf
-line`
-,
-    }
-    packet x	{uint32 uint32// @lengthOf(
-rootA	,u32 options1 `say ""hi""` , @tag( 7
-    )// packet A { u8 x, }
-msg_type @lengthOf(
-stringy	)	, }
-
 ")).
-Eval vm_compute in ("<<<M2241>>>" ++ check (runes_of_ascii "MetaData Packet { }packet	asx  { { @lengthOf( asx) falsey`crlf
-line`
-,
-    }
-    packet x	{uint32// @lengthOf(
-rootA	,u32 options1 `say ""hi""` , @tag( 7
-    )// packet A { u8 x, }
-msg_type @lengthOf(
-stringy	)	, }
-
-")).
-Eval vm_compute in ("<<<M2390>>>" ++ check (runes_of_ascii "MetaData Packet { }packet	asx  { @lengthOf( asx) falsey`crlf
-line`
-,
-    }
-|    packet x	{uint32// @lengthOf(
-rootA	,u32 options1 `say ""hi""` , @tag( 7
-    )// packet A { u8 x, }
-msg_type @lengthOf(
-stringy	)	, }
-
-")).
-Eval vm_compute in ("<<<M2352>>>" ++ check (runes_of_ascii "MetaData Packet { }packet	asx  { @lengthOf( asx) falsey`crlf
-line`
-,
-    }
-    packet x	{uint32// @lengthOf(
-rootA	,u32 options1 `say ""hi""` , @tag( 7
-    )// packet A { u8 x, }
-msg_type stringy
-@lengthOf(	)	, }
-
-")).
-Eval vm_compute in ("<<<M1068>>>" ++ check (runes_of_ascii "MetaData pack
-    {Header  len ,  } packet
-i8i8	{pack @lengthOf( // @lengthOf(
-int )
-, }root packet
-// `tick` ""quote"" 'q'
-// c
-MetaDataX {char[007 ] metadata ,}
-MetaData //x
-MetaDataX { int
-    //x
-    o , }
-")).
-Eval vm_compute in ("<<<M917>>>" ++ check (runes_of_ascii "options { uint8x = ""\n"" ;
-// " ++ [128512]%N ++ runes_of_ascii " emoji
-// packet A { u8 x, }
-}packet
+Eval vm_compute in ("<<<M100>>>" ++ check (runes_of_ascii "packet roots {
+    } packet metadata {
+    @lengthOf( u) @tag(00 )
+@lengthOf( Pad )  T @lengthOf( pack ),@rightPad
+( '0' )lengthOf , @lengthOf(  u) char[]
     //
-    repeatCount {
-roots
-len ,
-@lengthOf( f32a )
-    // `tick` ""quote"" 'q'
-    o `say ""hi""` ,
-    }//	t
-options //x
-{ a1 = u32 ; }
-")).
-Eval vm_compute in ("<<<M715>>>" ++ check (runes_of_ascii "packet u128 // packet A { u8 x, }
-{ @tag( 00 )
-    // trailing space 
-    i64 msg_type @calculatedFrom(
-""x y"" ) , repeat //
-calculatedFrom u//
-, @rightPad
-('0')repeat string chars`` , int8 metadata,}
-")).
-Eval vm_compute in ("<<<M13>>>" ++ check (runes_of_ascii "packet crc {
-@tag(  0123456789// " ++ [128512]%N ++ runes_of_ascii " emoji
-) i64 uint8x , }
-MetaData i8i8 {
-    zchar[
-    65535 ] int, }	packet lengthOf  {
-// trailing space 
-//	t
-@leftPad	('0')	falsey int ,	}
+    A ,
+match  Packet as // `tick` ""quote"" 'q'
+a1{007
+: leftPad 65535
+    :// trailing space 
+msg_type , ""a\\"" :
+// " ++ [128512]%N ++ runes_of_ascii " emoji
 // @lengthOf(
-")).
-Eval vm_compute in ("<<<M4043>>>" ++ check (runes_of_ascii "MetaData	int
-    {  string Z9_ `say ""hi""`
-,	char[]  // @lengthOf(
-	uint8x 	 // packet A { u8 x, }
-	`// not a comment`  ,  char[]
-    Foo
-,trueish
-	T
-, 	 // " ++ [27880; 37322]%N ++ runes_of_ascii "
-    asx  asx
-    ,
-}
-")).
-Eval vm_compute in ("<<<M3456>>>" ++ check (runes_of_ascii "// top
-root // c0
-packet P // c2a
-  // c2b
-{ u16 // c4
-a // c5a
-  // c5b
-, // c6
-u32 // c7
-Sum @calculatedFrom(
-    // c9
-""CRC32"" // c10
-) , // c12a
-  // c12b
-} // c13a
-  // c13b
-")).
-Eval vm_compute in ("<<<M4514>>>" ++ check (runes_of_ascii "MetaData options1 {
-    packetx x `
-        `,//	t
-}
-
-options {
-    x_y_z = true
-    options1 = char[];
-    body = 65535/// triple
-    lengthOf = ""it's"";
-    x = '\x00'
-}")).
-Eval vm_compute in ("<<<M1183>>>" ++ check (runes_of_ascii "packet Z9_
-{@calculatedFrom( ""{,}"" ) roots //x
-{ len {
-    msg_type //x
-,uint8x `{ , }`  , zchar[
-// trailing space 
-// " ++ [128512]%N ++ runes_of_ascii " emoji
-0
-] //	t
-matchKey ,
-    } , } , }
-")).
-Eval vm_compute in ("<<<M553>>>" ++ check (runes_of_ascii "MetaData
-i64_ { float32 BodyLength
-    // a // b
-    , int8
-tag
-`two words` , roots
-a1 `crlf
-line` ,}  MetaData f32a { int64 o
-    `tab	here`, i32
-    A, }")).
-Eval vm_compute in ("<<<M492>>>" ++ check (runes_of_ascii "
-root
-packet chars
-    {
-repeat
-a1 { trueish x `" ++ [28040; 24687; 31867; 22411]%N ++ runes_of_ascii "` ,	},
-}
-MetaData metadata { int32
-int
-, f64 uint8x `say ""hi""` //
-, i64 rootA `crlf
-line` ,}
-")).
-Eval vm_compute in ("<<<M1653>>>" ++ check (runes_of_ascii "root packet /// triple
-rootA {	i32
-MetaDataX@calculatedFrom( @calculatedFrom( ""CRC32"" ) `line1
-line2` , } MetaData BodyLength {
-u8
-rootA, } // c")).
-Eval vm_compute in ("<<<M3829>>>" ++ check (runes_of_ascii "packet A {
-    Inner {
-        u8 x `
-                x`,
-        Deep {
-            u8 y `
-                        x`,
-        },
-    },
-}")).
-Eval vm_compute in ("<<<M1303>>>" ++ check (runes_of_ascii "root packet lengthOf { char[00 ]  x@lengthOf(
-matchKey ) ,
-    //	t
-    float64 repeatCount // c
-, @lengthOf(	zchar
-)	char[]roots  ,	}
-")).
-Eval vm_compute in ("<<<M4261>>>" ++ check (runes_of_ascii "packet A {
-    u8 a,
-}
-
-packet B {
-    u16 b,
-}
-
-root packet P {
-    u8 K,
-    match K as M {
-        1 : A,
-        1 : B,
-    },
-}")).
-Eval vm_compute in ("<<<M4398>>>" ++ check (runes_of_ascii "  packet	A
-
-    {match k
-    as n	{	[
-
-""a"" 
-,
-
-    ""bb""
-,
-""c c""
-
-    ,
-""d"" ,
-
-    ""e"",	""f""  ]
-:
-B,
-
-    2: 
-C 
-} ,
-    }")).
-Eval vm_compute in ("<<<M1714>>>" ++ check (runes_of_ascii "root packet /// triple
-rootA {	i32
-MetaDataX@calculatedFrom( ""CRC32"" ) `line1
-line2` , } MetaData BodyLength {
-u8
-rootA, A // c")).
-Eval vm_compute in ("<<<M1705>>>" ++ check (runes_of_ascii "root packet /// triple
-rootA {	i32
-MetaDataX@calculatedFrom( ""CRC32"" ) `line1
-line2` , } MetaData BodyLength {
-u8
-i8, } // c")).
-Eval vm_compute in ("<<<M1806>>>" ++ check (runes_of_ascii "packet
-    Pad // a // b
-{ i8i8 @calculatedFrom( ""a	b"" ""a	b"") `u8 x,` ,
-} options{ float// " ++ [128512]%N ++ runes_of_ascii " emoji
-= f64 i64_
-=//	t
-00 }
-")).
-Eval vm_compute in ("<<<M3433>>>" ++ check (runes_of_ascii "packet B {
-    u8 a,
-}
-root packet P {
-    u8 K,
-    u8 L @lengthOf(Body),
-    match K as Body {
-        1 : B,
-    },
-}
-")).
-Eval vm_compute in ("<<<M1868>>>" ++ check (runes_of_ascii "packet
-    Pad // a // b
-{ i8i8 @calculatedFrom( ""a	b"") `u8 x,` ,
-} options{ float// " ++ [128512]%N ++ runes_of_ascii " emoji
-= f64 i64_
-=//	t
-root }
-")).
-Eval vm_compute in ("<<<M4220>>>" ++ check (runes_of_ascii "
-options	{i8i8
-
-    =	""// no comment""
-
-    ; o
-= 
-'0'Header  =
-'0'
-    ;
-
-    a1 =
-	zchar[  1
-    ]
-
-    }
-
-")).
-Eval vm_compute in ("<<<M437>>>" ++ check (runes_of_ascii "options { calculatedFrom= ""a\""b"" calculatedFrom=
-i64 MetaDataX //
-=  ""x y""msg_type = char[1
-/// triple
-// c
-] ;} //x")).
-Eval vm_compute in ("<<<M99>>>" ++ check (runes_of_ascii "// c
-packet Logon
-    {
+Z9_ """ ++ [233]%N ++ runes_of_ascii "t" ++ [233]%N ++ runes_of_ascii """
+: A , ""// no comment""	:x_y_z,
+4294967296 : a1
+    ,/// triple
+} ,f32	T
+    , f64 roots	@lengthOf( int ), }")).
+Eval vm_compute in ("<<<M1644>>>" ++ check (runes_of_ascii "
+// top
+packet 
+    // c0
+  Logon
+// c1
+	{ 
+	// c2
 @tag(
-42 )
-    repeat i64_ {As crc , }, } packet x_y_z { @lengthOf( x_y_z ) i8
-u `it's`, }")).
-Eval vm_compute in ("<<<M4408>>>" ++ check (runes_of_ascii "// top
-root packet P {
-    u16 a,// c6
-    u32 Sum @calculatedFrom(""CRC32""),// c12a
-    // c12b
-}// c13a
-// c13b")).
-Eval vm_compute in ("<<<M1696>>>" ++ check (runes_of_ascii "root packet /// triple
-rootA {	i32
-MetaDataX@calculatedFrom( ""CRC32"" ) `line1
-line2` , } MetaData BodyLength")).
-Eval vm_compute in ("<<<M3040>>>" ++ check (runes_of_ascii "packet A {
-    u16 len @lengthOf(body) `
-x`,
-    u32 crc @calculatedFrom(""CRC32"") `
-x`,
-    string body,
-}")).
-Eval vm_compute in ("<<<M2983>>>" ++ check (runes_of_ascii "packet A {
-  match k as n {
-    [""a"", 22, ""c c"", 4, ""e"", 66, ""g"", 8, ""i"", 10, ""k""] : B
-    2 : C
-  },
-}")).
-Eval vm_compute in ("<<<M3366>>>" ++ check (runes_of_ascii "packet calculatedFrom { @tag( 4294967296 ) u msg_type , char[ 3 ] crc @lengthOf(
-// c
-len ) `u8 x,` , }")).
-Eval vm_compute in ("<<<M3928>>>" ++ check (runes_of_ascii "packet
+    // c3
+	42
+// c4
+	  ) 
+
+// c5
+@rightPad 
+// c6
+
+( 
+      // c7
+	' ' 
+	    // c8
+  )
+
+    // c9
+    	@leftPad 
+  // c10
+	(
+// c11
+)  
+  // c12
+  repeat
+    // c13
+  trueish
+	    // c14
+  {
+    // c15
+    	string
+	// c16
+    T
+// c17
+    	, 
+	// c18
+} 
+// c19
+
+	, 
+      // c20
+  }
+	    // c21
+")).
+Eval vm_compute in ("<<<M1126>>>" ++ check (runes_of_ascii "// top
+packet
+    // c0
 Logon
-{ 
-@tag(	42 
-) @rightPad	(  ' '	)@leftPad( ) repeat trueish {
-string  T  ,
-}  , } 	 // c")).
-Eval vm_compute in ("<<<M1111>>>" ++ check (runes_of_ascii "
-options { Foo=""`tick`""pack=
-    //
-    """ ++ [233]%N ++ runes_of_ascii "t" ++ [233]%N ++ runes_of_ascii """ ;leftPad
-= false ; int
-=char[] ; a1 =i16
-    ;
+    // c1
+{
+    // c2
+@tag(
+    // c3
+42
+    // c4
+)
+    // c5
+@rightPad
+    // c6
+(
+    // c7
+' '
+    // c8
+)
+    // c9
+@leftPad
+    // c10
+(
+    // c11
+)
+    // c12
+repeat
+    // c13
+trueish
+    // c14
+{
+    // c15
+string
+    // c16
+T
+    // c17
+,
+    // c18
+}
+    // c19
+,
+    // c20
+}
+    // c21
+")).
+Eval vm_compute in ("<<<M306>>>" ++ check (runes_of_ascii "
+packet charz
+    { @lengthOf( Pad
+) match rootA as	string_ { [ 0123456789 ]
+// a // b
+//
+: repeatCount [
+    00 ,""it's""
+] : T ,
+    0 // packet A { u8 x, }
+: stringy,
+    4294967296 :
+msg_type ,/// triple
+} ,} packet lengthOf
+{
+@tag( 7 ) char[
+    255 ]
+float@calculatedFrom( ""packet"" ),  }
+")).
+Eval vm_compute in ("<<<M1409>>>" ++ check (runes_of_ascii "packet P1 {
+    u8 a,
+}
+packet P2 {
+    P1,
+}
+packet P3 {
+    P2,
+    P1,
+}
+packet P4 {
+    repeat P3,
+    P2,
+}
+root packet P5 {
+    P4,
+    P3,
+    P1,
+    u8 K,
+    match K as Body {
+        4 : P4,
+        3 : P3,
+        2 : P2,
+        1 : P1,
+    },
 }
 ")).
-Eval vm_compute in ("<<<M961>>>" ++ check (runes_of_ascii "options  { }MetaData
-    u128 {
-int64 u8x
-,lengthOf
-    u128 `it's` // c
-,}options//	t
-{ // c
-}")).
-Eval vm_compute in ("<<<M3242>>>" ++ check (runes_of_ascii "packet Logon { @tag( 42 ) @rightPad ( ' ' ) @leftPad ( ) repeat // c
-trueish { string T , } , }")).
-Eval vm_compute in ("<<<M2032>>>" ++ check (runes_of_ascii "root
-packet crc
-    { f32a @calculatedFrom( """ ++ [233]%N ++ runes_of_ascii "t" ++ [233]%N ++ runes_of_ascii """ )
-    `say ""hi""`, lengthOf `` ,  }@leftpad")).
-Eval vm_compute in ("<<<M3674>>>" ++ check (runes_of_ascii "packet
+Eval vm_compute in ("<<<M1684>>>" ++ check (runes_of_ascii "
+options{
 
-A 
-{
-match k
-as 
-n
-{ 
-[
-	1
+    FixedStringPadChar
+	=
+'0';	}
+packet
 
-,22
+Q { 
+zchar[	4 ]
+z
+,@rightPad
+(
+
+'\x00'
+
+)
+char[3 ]	n
 
     ,
+	char[
 
-007
+5
+]
+d  , }
 
-, 4
+    root
+packet
+    R
+
+    {Q
+
 ,
-	5
-	]	:
-B ,
-2:C
-	}
+    zchar[8
+] top ,repeat  zchar[
+    2  ]  zs
 
     ,} ")).
-Eval vm_compute in ("<<<M4309>>>" ++ check (runes_of_ascii "options {
-    repeatCount = ""CRC32""
-    x = true//x
-    u = ""\" ++ [233]%N ++ runes_of_ascii """;
-    stringy = '\x00';
-}")).
-Eval vm_compute in ("<<<M3778>>>" ++ check (runes_of_ascii "packet A {
-    B b `a
-        b`,
-    B `a
-        b`,
-    repeat B bs `a
-        b`,
-}")).
-Eval vm_compute in ("<<<M1964>>>" ++ check (runes_of_ascii "root
-crc packet
-    { f32a @calculatedFrom( """ ++ [233]%N ++ runes_of_ascii "t" ++ [233]%N ++ runes_of_ascii """ )
-    `say ""hi""`, lengthOf `` ,  }")).
-Eval vm_compute in ("<<<M2921>>>" ++ check (runes_of_ascii "packet A {
-  match k as n {
-    [""a"", ""bb"", 007, ""d"", ""e"", 66] : B,
-    2 : C
-  },
-}")).
-Eval vm_compute in ("<<<M2937>>>" ++ check (runes_of_ascii "packet A {
-  match k as n {
-    [1, 22, 007, 4, 5, 66, 7, 8] : B,
-    2 : C
-  },
-}")).
-Eval vm_compute in ("<<<M3309>>>" ++ check (runes_of_ascii "packet o { @tag( 42 ) repeat x
-// c
-{ char[ 0123456789 ] i64_ , } , } options { }")).
-Eval vm_compute in ("<<<M1876>>>" ++ check (runes_of_ascii "packet
-    Pad // a // b
-{ i8i8 @calculatedFrom( ""a	b"") `u8 x,` ,
-} options{ fl")).
-Eval vm_compute in ("<<<M234>>>" ++ check (runes_of_ascii "packet	As{ match  repeatCount as metadata
-{ 007 : //x
-crc, ""a	b"" :
-    A} , }
-")).
-Eval vm_compute in ("<<<M2713>>>" ++ check (runes_of_ascii "options repeat [ ] uint32 false match char[] @tag( MetaData string , float32")).
-Eval vm_compute in ("<<<M3809>>>" ++ check (runes_of_ascii "// `tick` ""quote"" 'q'
-options {
-    leftPad = float32
-}
-
-root packet o {
-}")).
-Eval vm_compute in ("<<<M698>>>" ++ check (runes_of_ascii "root packet Z9_{ @rightPad(
-    ) packetx `" ++ [233]%N ++ runes_of_ascii "` , }
-root packet falsey {}")).
-Eval vm_compute in ("<<<M3401>>>" ++ check (runes_of_ascii "MetaData _x { zchar[ // c
-4294967296 ] lengthOf `// not a comment` , }")).
-Eval vm_compute in ("<<<M269>>>" ++ check (runes_of_ascii "MetaData u8x { uint32 i8i8 `it's`, } options
+Eval vm_compute in ("<<<M572>>>" ++ check (runes_of_ascii "options
 {
-    Logon
-= '0'	; }
+matchKey = 42/// triple
+x='0' ;
+// packet A { u8 x, }
+//
+charz
+=
+// packet A { u8 x, }
+// trailing space 
+'\x01'true  ; } MetaData BodyLength
+{
+uint8
+pack,zchar[ 1]float ,  float32 x_y_z `` ,u32
+_x,i16 body  , }
 ")).
-Eval vm_compute in ("<<<M2200>>>" ++ check (runes_of_ascii "root
-    // `tick` ""quote"" 'q'
-    packet As { trueish` Packet , }
+Eval vm_compute in ("<<<M427>>>" ++ check (runes_of_ascii "options
+{
+matchKey = 42/// triple
+x='0' ; ;
+// packet A { u8 x, }
+//
+charz
+=
+// packet A { u8 x, }
+// trailing space 
+true  ; } MetaData BodyLength
+{
+uint8
+pack,zchar[ 1]float ,  float32 x_y_z `` ,u32
+_x,i16 body  , }
 ")).
-Eval vm_compute in ("<<<M3640>>>" ++ check (runes_of_ascii "packet trueish {
-    @calculatedFrom(""abc"")
-    body `tab	here`,
-}")).
-Eval vm_compute in ("<<<M252>>>" ++ check (runes_of_ascii "packet
-f32a { //
-@tag( 1 )  Z9_ chars ,chars// " ++ [128512]%N ++ runes_of_ascii " emoji
-`
-`, }
+Eval vm_compute in ("<<<M571>>>" ++ check (runes_of_ascii "opti~ons
+{
+matchKey = 42/// triple
+x='0' ;
+// packet A { u8 x, }
+//
+charz
+=
+// packet A { u8 x, }
+// trailing space 
+true  ; } MetaData BodyLength
+{
+uint8
+pack,zchar[ 1]float ,  float32 x_y_z `` ,u32
+_x,i16 body  , }
 ")).
-Eval vm_compute in ("<<<M1950>>>" ++ check (runes_of_ascii "
-packet	As { @cal'\x01'culatedFrom(//x
-""{,}""	)lengthOf , } 	 ")).
-Eval vm_compute in ("<<<M2662>>>" ++ check (runes_of_ascii "options { a = true; b = false; c = '0'; d = ""s""; e = 007; }")).
-Eval vm_compute in ("<<<M1936>>>" ++ check (runes_of_ascii "
-packet	As { @calculatedFrom(//x
-""{,}""	)lengthOf , } } 	 ")).
-Eval vm_compute in ("<<<M2859>>>" ++ check (runes_of_ascii "packet A {
-  match k as n {
-    [1] : B
-    2 : C
-  },
-}")).
-Eval vm_compute in ("<<<M1739>>>" ++ check (runes_of_ascii "options options { }options {  } // `tick` ""quote"" 'q'")).
-Eval vm_compute in ("<<<M985>>>" ++ check (runes_of_ascii "//
-options {
-    options1	= ""a\""b""}
-// @lengthOf(
+Eval vm_compute in ("<<<M508>>>" ++ check (runes_of_ascii "options
+{
+matchKey = 42/// triple
+x='0' ;
+// packet A { u8 x, }
+//
+charz
+=
+// packet A { u8 x, }
+// trailing space 
+true  ; } MetaData BodyLength
+{
+uint8
+pack,zchar[ 1]float float32  , x_y_z `` ,u32
+_x,i16 body  , }
 ")).
-Eval vm_compute in ("<<<M2028>>>" ++ check (runes_of_ascii "root
-packet crc
-    { f32a @calculatedFrom( """ ++ [233]%N ++ runes_of_ascii "t" ++ [65533]%N)).
-Eval vm_compute in ("<<<M959>>>" ++ check (runes_of_ascii "packet i8i8 {
-    } packet asx	{ uint8	pack, }
+Eval vm_compute in ("<<<M586>>>" ++ check (runes_of_ascii "options
+{
+matchKey = 42/// triple
+x='0' ;
+// packet A { u8 x, }
+//
+charz
+=
+// packet A { u8 x, }
+// trailing space 
+true  ; } MetaData BodyLength
+{
+uint8
+pack,zchar[ 1]a" ++ [769]%N ++ runes_of_ascii "b ,  float32 x_y_z `` ,u32
+_x,i16 body  , }
 ")).
-Eval vm_compute in ("<<<M1342>>>" ++ check (runes_of_ascii "
-packet u128  {  char[00// " ++ [128512]%N ++ runes_of_ascii " emoji
-]
-Pad , }
+Eval vm_compute in ("<<<M396>>>" ++ check (runes_of_ascii "options
+{
+ = 42/// triple
+x='0' ;
+// packet A { u8 x, }
+//
+charz
+=
+// packet A { u8 x, }
+// trailing space 
+true  ; } MetaData BodyLength
+{
+uint8
+pack,zchar[ 1]float ,  float32 x_y_z `` ,u32
+_x,i16 body  , }
 ")).
-Eval vm_compute in ("<<<M2825>>>" ++ check (runes_of_ascii "@lengthOf( @calculatedFrom( MetaDataX i8 i8 ;")).
-Eval vm_compute in ("<<<M2559>>>" ++ check (runes_of_ascii "packet A { repeat match k as n { 1 : B }, }")).
-Eval vm_compute in ("<<<M866>>>" ++ check (runes_of_ascii "packet
+Eval vm_compute in ("<<<M174>>>" ++ check (runes_of_ascii "packet  f32a
+    {//
+match
+//x
+//
 o
-//	t
-// `tick` ""quote"" 'q'
-{
+    // trailing space 
+    as As { 10: //
+roots
+,// " ++ [27880; 37322]%N ++ runes_of_ascii "
+[
+255 // a // b
+, 42 ,
+    10 ,  00 ]:
+    matchKey ,
+} ,
 }
-")).
-Eval vm_compute in ("<<<M2190>>>" ++ check (runes_of_ascii "root
-    // `tick` ""quote"" 'q'
-    packe")).
-Eval vm_compute in ("<<<M3732>>>" ++ check (runes_of_ascii "root packet A {
-    u8 x `
-        x`,
+    options { u128 = 65535 Packet = 3
+;
 }")).
-Eval vm_compute in ("<<<M2107>>>" ++ check (runes_of_ascii "MetaData {
-x// " ++ [128512]%N ++ runes_of_ascii " emoji
-i16 stringy , }")).
-Eval vm_compute in ("<<<M2580>>>" ++ check (runes_of_ascii "packet A { zchar[3] x @lengthOf(y), }")).
-Eval vm_compute in ("<<<M1305>>>" ++ check (runes_of_ascii "MetaData Header {
-pack o`doc` ,
+Eval vm_compute in ("<<<M664>>>" ++ check (runes_of_ascii "// c
+packet i64_ {	char[] calculatedFrom , } packet
+trueish  {@calculatedFrom(
+""a\\"" ) o { i32 falsey@lengthOf( uint8x ),
+} , } // `tick` ""quo'1'te"" 'q'
+options {// c
+Z9_ = ' '//
 }
 ")).
-Eval vm_compute in ("<<<M4467>>>" ++ check (runes_of_ascii "packet A {
-    u8 x `d 	`,// c 	
+Eval vm_compute in ("<<<M3>>>" ++ check (runes_of_ascii "packet
+    Foo{
+    uint64  Header @lengthOf( float )
+`
+`
+, // a // b
+char[]_x,@tag( 10
+    )
+char[] Packet , uint16 stringy @lengthOf(
+    calculatedFrom
+), }//x
+options	{ }")).
+Eval vm_compute in ("<<<M1796>>>" ++ check (runes_of_ascii "packet A {
+    match k as n {
+        [
+            ""a"", ""bb"", 007, ""d"", ""e"",
+            66, ""g"", ""h"", 9, ""j"",
+            ""k"", 12
+        ] : B,
+        2 : C,
+    },
 }")).
-Eval vm_compute in ("<<<M4022>>>" ++ check (runes_of_ascii "packet A {
-    u8 x `d" ++ [12288]%N ++ runes_of_ascii "`,// c" ++ [12288]%N ++ runes_of_ascii "
-}")).
-Eval vm_compute in ("<<<M2783>>>" ++ check (runes_of_ascii "U^}|d}OPKLGCG6_a=z(#7;cXSYr;lQ")).
-Eval vm_compute in ("<<<M2092>>>" ++ check (runes_of_ascii "MetaData A { u64 pack, }@tag ")).
-Eval vm_compute in ("<<<M4424>>>" ++ check (runes_of_ascii "// c
-packet
-lengthOf{
-}
-
-")).
-Eval vm_compute in ("<<<M820>>>" ++ check (runes_of_ascii "MetaData repeatCount
-{
-}
-")).
-Eval vm_compute in ("<<<M2091>>>" ++ check (runes_of_ascii "MetaData A { u64 pack~, }")).
-Eval vm_compute in ("<<<M2053>>>" ++ check (runes_of_ascii "MetaData { A u64 pack, }")).
-Eval vm_compute in ("<<<M3916>>>" ++ check (runes_of_ascii "packet repeatCount {
-}//")).
-Eval vm_compute in ("<<<M965>>>" ++ check (runes_of_ascii "options { } /// triple")).
-Eval vm_compute in ("<<<M2698>>>" ++ check (runes_of_ascii "`" ++ [233]%N ++ runes_of_ascii "` int16 [ ( options")).
-Eval vm_compute in ("<<<M4472>>>" ++ check (runes_of_ascii "
-
-  // @lengthOf(
- 
-")).
-Eval vm_compute in ("<<<M4300>>>" ++ check (runes_of_ascii "//
+Eval vm_compute in ("<<<M1552>>>" ++ check (runes_of_ascii "
 packet
 
-crc{}
+    A
 
+{match k
+as
+    n
+	{
+
+[ ""a""  , ""bb"" 
+, 
+007
+,""d"" 
+,
+""e""
+,
+
+66
+, 
+""g"",
+
+    ""h"" , 9
+
+,
+	""j"",
+    ""k""] :
+    B 
+,
+2  :
+
+    C
+} 
+,
+	}
 ")).
-Eval vm_compute in ("<<<M3086>>>" ++ check (runes_of_ascii "packet A {
+Eval vm_compute in ("<<<M1548>>>" ++ check (runes_of_ascii "packet A {
+    match k as n {
+        [
+            ""a"", 22, ""c c"", 4, ""e"",
+            66, ""g"", 8, ""i"", 10
+        ] : B,
+        2 : C,
+    },
+}")).
+Eval vm_compute in ("<<<M1983>>>" ++ check (runes_of_ascii "
+
+  packet 
+calculatedFrom
+	{ 
+@tag( 4294967296 )
+
+    u
+
+msg_type
+	    // c
+,  char[
+
+    3  ] crc@lengthOf(	len)
+	`u8 x,` 
+,
+	}
+")).
+Eval vm_compute in ("<<<M678>>>" ++ check (runes_of_ascii "// c
+packet i64_ {	char[] calculatedFrom , } packet
+trueish  {@calculatedFrom(
+""a\\"" ) o { i32 falsey@lengthOf( uint8x ),
+} , }")).
+Eval vm_compute in ("<<<M1621>>>" ++ check (runes_of_ascii "packet Foo {
+    repeat int {
+        string u @calculatedFrom(""packet"") ``,
+    },
+    zchar[007] A `doc`,
 }
-// c" ++ [8192]%N)).
-Eval vm_compute in ("<<<M2565>>>" ++ check (runes_of_ascii "packet A { u8 , }")).
-Eval vm_compute in ("<<<M128>>>" ++ check (runes_of_ascii "packet i8i8
-{}
+
+options {
+}")).
+Eval vm_compute in ("<<<M1671>>>" ++ check (runes_of_ascii "
+
+  MetaData
+    // trailing space 
+
+  matchKey  {
+u64 chars	// a // b
+	,
+i16
+	lengthOf
+	`// not a comment`	,//	t
+} ")).
+Eval vm_compute in ("<<<M628>>>" ++ check (runes_of_ascii "MetaData
+    // trailing space 
+    matchKey
+{ u64 chars // a // b
+,char[] lengthOf ,
+    `// not a comment` //	t
+}")).
+Eval vm_compute in ("<<<M111>>>" ++ check (runes_of_ascii "root packet Pad {@tag(  3
+)
+    @calculatedFrom(
+""a\""b""
+    )repeat zchar[
+    // " ++ [128512]%N ++ runes_of_ascii " emoji
+    00 ] repeatCount , }")).
+Eval vm_compute in ("<<<M1862>>>" ++ check (runes_of_ascii "packet	o {
+	@tag( 42 
+)
+    repeat x
+
+{	char[ 0123456789
+
+    ] i64_
+    ,}
+
+    , // c
+
+	} options  {
+
+} ")).
+Eval vm_compute in ("<<<M2023>>>" ++ check (runes_of_ascii "
+packet 
+o  {@tag( 
+// c
+	42
+)
+
+repeat
+x
+    {
+
+char[
+
+    0123456789  ] 
+i64_, },
+    } options {}")).
+Eval vm_compute in ("<<<M1265>>>" ++ check (runes_of_ascii "packet calculatedFrom { @tag( 4294967296 ) u // c
+msg_type , char[ 3 ] crc @lengthOf( len ) `u8 x,` , }")).
+Eval vm_compute in ("<<<M1508>>>" ++ check (runes_of_ascii "packet calculatedFrom {
+    @tag(4294967296)
+    u msg_type,
+    char[3] crc @lengthOf(len) `u8 x,`,
+}")).
+Eval vm_compute in ("<<<M903>>>" ++ check (runes_of_ascii "packet A {
+  match k as n {
+    [1, 22, 007, 4, 5, 66, 7, 8, 9, 10, 11, 12] : B,
+    2 : C
+  },
+}")).
+Eval vm_compute in ("<<<M1143>>>" ++ check (runes_of_ascii "packet Logon { @tag( 42 ) @rightPad
+// c
+( ' ' ) @leftPad ( ) repeat trueish { string T , } , }")).
+Eval vm_compute in ("<<<M2008>>>" ++ check (runes_of_ascii "packet o {
+    @tag(42)
+    repeat x {
+        char[0123456789] i64_,
+    },
+}
+
+options {
+}// c")).
+Eval vm_compute in ("<<<M1760>>>" ++ check (runes_of_ascii "packet A {
+    match k as n {
+        [""a"", ""bb"", ""c c"", ""d""] : B,
+        2 : C,
+    },
+}")).
+Eval vm_compute in ("<<<M828>>>" ++ check (runes_of_ascii "packet A {
+  match k as n {
+    [""a"", ""bb"", ""c c"", ""d"", ""e"", ""f""] : B
+    2 : C
+  },
+}")).
+Eval vm_compute in ("<<<M846>>>" ++ check (runes_of_ascii "packet A {
+  match k as n {
+    [1, 22, ""c c"", 4, 5, ""f"", 7] : B,
+    2 : C
+  },
+}")).
+Eval vm_compute in ("<<<M1226>>>" ++ check (runes_of_ascii "packet o { @tag( 42 ) repeat x { char[ // c
+0123456789 ] i64_ , } , } options { }")).
+Eval vm_compute in ("<<<M1362>>>" ++ check (runes_of_ascii "options {
+    FixedStringPadFromLeft = true;
+}
+root packet P {
+    char[4] z,
+}
 ")).
-Eval vm_compute in ("<<<M2711>>>" ++ check ([65533; 65533]%N ++ runes_of_ascii "S" ++ [65533; 65533; 65533; 65533]%N ++ runes_of_ascii "L" ++ [65533]%N ++ runes_of_ascii "w" ++ [65533; 65533; 65533; 21; 65533]%N)).
-Eval vm_compute in ("<<<M1914>>>" ++ check (runes_of_ascii "
-packet	As {")).
-Eval vm_compute in ("<<<M2633>>>" ++ check (runes_of_ascii "packet A {")).
-Eval vm_compute in ("<<<M2435>>>" ++ check (runes_of_ascii "zchar[]")).
-Eval vm_compute in ("<<<M2852>>>" ++ check (runes_of_ascii "uint32")).
-Eval vm_compute in ("<<<M3065>>>" ++ check (runes_of_ascii "// c" ++ [12288]%N)).
-Eval vm_compute in ("<<<M2513>>>" ++ check (runes_of_ascii """\\""")).
-Eval vm_compute in ("<<<M2527>>>" ++ check (runes_of_ascii "1.5")).
-Eval vm_compute in ("<<<M2535>>>" ++ check (runes_of_ascii "1_")).
+Eval vm_compute in ("<<<M2019>>>" ++ check (runes_of_ascii "MetaData M {
+    u8 x `a
+        b
+      c`,
+    T t `a
+        b
+      c`,
+}")).
+Eval vm_compute in ("<<<M889>>>" ++ check (runes_of_ascii "packet A { Inner { match k as n { [1,22,007,4,5,66,7,8,9,10] : B, }, }, }")).
+Eval vm_compute in ("<<<M1307>>>" ++ check (runes_of_ascii "// c
+MetaData _x { zchar[ 4294967296 ] lengthOf `// not a comment` , }")).
+Eval vm_compute in ("<<<M1086>>>" ++ check (runes_of_ascii "packet A { match k as n { [ // a
+ 1 // b
+ , // c
+ 2 ] // d
+ : B }, }")).
+Eval vm_compute in ("<<<M917>>>" ++ check (runes_of_ascii "packet A {
+    B b `a
+b`,
+    B `a
+b`,
+    repeat B bs `a
+b`,
+}")).
+Eval vm_compute in ("<<<M775>>>" ++ check (runes_of_ascii "packet A {
+  match k as n {
+    [""a""] : B
+    2 : C
+  },
+}")).
+Eval vm_compute in ("<<<M377>>>" ++ check (runes_of_ascii "// " ++ [27880; 37322]%N ++ runes_of_ascii "
+MetaData u128 {  char[
+    3 ] f32a `doc` , }")).
+Eval vm_compute in ("<<<M435>>>" ++ check (runes_of_ascii "options
+{
+matchKey = 42/// triple
+x='0' ;")).
+Eval vm_compute in ("<<<M1118>>>" ++ check (runes_of_ascii "MetaData zchar { zchar[ 3 ] Pad , // c
+}")).
+Eval vm_compute in ("<<<M197>>>" ++ check (runes_of_ascii "  options { leftPad =	""it's""
+    }
+")).
+Eval vm_compute in ("<<<M1925>>>" ++ check (runes_of_ascii "// c 
+    packet  A
+
+    {	}
+")).
+Eval vm_compute in ("<<<M1075>>>" ++ check (runes_of_ascii "MetaData M {
+}// c
+packet A {}")).
+Eval vm_compute in ("<<<M1184>>>" ++ check (runes_of_ascii "
+// c
+options { u8x = 3 }")).
+Eval vm_compute in ("<<<M1831>>>" ++ check (runes_of_ascii "
+// c" ++ [8287]%N ++ runes_of_ascii "
+	packet
+A
+{ }")).
+Eval vm_compute in ("<<<M1923>>>" ++ check (runes_of_ascii "packet matchKey {
+}")).
+Eval vm_compute in ("<<<M1046>>>" ++ check (runes_of_ascii "// c" ++ [8203]%N ++ runes_of_ascii "
+packet A {
+}")).
+Eval vm_compute in ("<<<M1812>>>" ++ check (runes_of_ascii "packet	i8i8
+
+{
+
+}")).
+Eval vm_compute in ("<<<M1658>>>" ++ check (runes_of_ascii "
+
+  //
+")).
+Eval vm_compute in ("<<<M729>>>" ++ check (runes_of_ascii "//")).
